@@ -1,10 +1,85 @@
 (* IOProofs.v -- C12 "YAML import accepts only sound statecharts" and C11 "export/import round trip"
-   for the model of theories/IO.v (schema validation, import_from_dict, export_to_dict) built on the
-   add_state/add_transition invariants of EditProofs.v.
-   (work in progress: summary of theorems, hypotheses and gaps is filled in at the end of the work) *)
+   for the model of theories/IO.v (schema validation of yaml.py, import_from_dict / export_to_dict of
+   datadict.py), built on the add_state / add_transition invariants of EditProofs.v
+   (register_sound, add_state_inv, sound_with_transitions, sound_b_sound, sound_sound_b).
+
+   The pipeline is  import_pipeline d = schema_statechart d >>= import_from_dict >>= validate ;  None models
+   StatechartError.  Everything below is about YAML *data trees* (ydata); ruamel's text layer is not modelled.
+
+   ---------------------------------------------------------------------------------------------------------
+   C12, first sentence
+   * import_sound c (Record): unique names stored under their own name; _parent/_children keyed by exactly the
+     states, mutually consistent, at most one parentless state, acyclic (rank); transitions from
+     transition-owning states to existing states; history states have a compound parent; every truthy
+     `initial` of a compound state is a direct child; every `memory` of a history state is a sibling <> itself.
+     import_sound_one_tree spells "one tree" out: one root, every other state a strict descendant.
+   * C12_sound : import_pipeline d = Some c -> import_sound c.            (no hypothesis, any ydata)
+     Proof: add_state/add_transition never read initial/memory, so the chart with these fields erased is
+     built by the same calls and is `sound` by EditProofs.register_sound; the walk registers parents before
+     children (import_walk_ordered), which also handles states named ''; validate gives initial/memory.
+   * checker <-> Prop: import_sound_b_sound (needs no_empty_name c: the acyclicity test of sound_b stops at a
+     state named ''), import_sound_b_complete (needs refs_tidy c: initial only on compound / memory only on
+     history states, no initial = Some ""), import_sound_b_iff.
+   * C12_sound_b : on an imported chart the checker passes provided no state has initial = Some "".
+     C12_sound_b_refuted (witness doc_initial_empty): a compound state with `initial: ''` is accepted and
+     the strict checker import_sound_b fails on the result.  Checked against /repo: validate() and the
+     interpreter test `if state.initial`, so '' means "no initial state" -- benign, no sismic defect; it is
+     the checker that reads Some "" as a declared initial state.
+     (DESIGN's expected C12_sound_refuted "history root accepted" no longer holds: /repo and the model were fixed.)
+
+   C12, second sentence (the C12_reject_ theorems)
+   * schema level, on the raw document doc m = {statechart: m}, fault at ANY depth (state_in = reachable through
+     'states'/'parallel states', using In, so also under shadowed duplicate keys):
+     C12_reject_not_a_statechart, _unknown_key_statechart, _missing_statechart_name, _missing_root_state,
+     _invalid_state (generic), _unknown_key_state, _missing_state_name, _state_not_a_mapping, _unknown_type,
+     _unknown_key_transition, _bad_priority (use_priority_None_iff says which priorities are refused),
+     _unknown_key_state_contract, _unknown_key_transition_contract.
+   * import/validate level (Section ImportFaults).  Hypotheses: schema_statechart d = Some (doc m) and
+     ylookup "root state" m = Some (YMap root); the fault is located in the schema-VALIDATED tree doc m
+     (= d with scalars coerced by Use(str)/Use(int); = d itself whenever the schema is the identity on d,
+     e.g. every exported document, schema_export) at a node the importer visits (walk_in):
+     C12_reject_import_state, _both_states_and_parallel, _duplicate_name (two visited nodes, same name,
+     differing in parent or content), _duplicate_name_list (any repetition in the list of registered
+     names), _transition_on_final_or_history, _unknown_target, _history_root, _history_under_non_compound,
+     _initial_not_child, _memory_not_sibling (itself / no such sibling / unknown).
+     GAP: these ten are not restated on the raw tree d (needs a shape lemma relating d and schema d);
+     substates written under a final/history state are ignored by the importer and are no fault (DESIGN).
+
+   C12, last sentence
+   * C12_error_type : (i) the outcome is None or Some c; (ii) C12_error_type_fuel: adding any fuel to the
+     two bounded recursions (schema_state: ydepth, import_walk: count_nodes) does not change the outcome, so no
+     None is due to a fuel running out (schema_state_fuel, import_walk_fuel); (iii)
+     C12_error_type_no_keyerror: in the registration loop add_state never ends in the KeyError that
+     add_states would silently turn into None (add_transition only ever returns EOk/EStatechartError).
+     Not expressible in the model: other Python exceptions (the model has no such outcome; use_str of a
+     list/mapping is "<repr not modelled>").
+
+   C11 (dict level)
+   * valid_for_export_b c (decidable): import_sound_b c (sound tree, validate passes, history under compound),
+     no state named '', a root exists, exactly the composite states have children, no empty contract condition.
+     No hypothesis on whitespace: roundtrip_ok compares with strip_state/strip_trans (code and event stripped,
+     '' read as None), which is exactly what the importer does.
+   * C11_dict_roundtrip : valid_for_export_b c = true ->
+       exists c', import_pipeline (export_to_dict c) = Some c' /\ roundtrip_ok c c' = true.       (complete)
+     roundtrip_ok_eqv unfolds the checker into the Prop roundtrip_eqv (same name/description/preamble, same
+     states with all fields, same parents, same children sets, as many transitions, same transitions per
+     source in the same order); C11_dict_roundtrip_eqv combines both.
+     Building blocks: priority_roundtrip, import_contract_items, import_export_transition,
+     import_export_state, schema_export_transition, schema_efields / schema_export_tree / schema_export
+     (the schema is the identity on exported documents), subtree_of_sound (fuel S |states| reaches every
+     state), walk_export (the explicit stack = preorder with reversed siblings, cdfs), cdfs_In / cdfs_NoDup,
+     add_states_export_ok, back_validate, roundtrip_export.
+   * Not here: C11_behaviour and C11_eq of DESIGN (runs / Python ==); the text layer (load(dump d) = d).
+
+   Non-vacuity: ex_doc / ex_chart (11 states, nested compound + orthogonal, shallow+deep history, final,
+   contracts, priorities high/low/5/"-3", name given as integer 7): ex_import, ex_import_sound_b, ex_valid,
+   ex_roundtrip, ex_roundtrip_by_theorem; nine faulty documents ex_reject_*, each closed with the theorem of
+   its class (hypotheses satisfiable) or by vm_compute.
+
+   Depends on EditProofs.register_sound in its current form (hypothesis memory_ok). *)
 From Coq Require Import String Ascii List Bool ZArith NArith Arith Lia Permutation Sorted.
-From Sismic Require Import Base Chart Edit IO IOCorr.
 From SismicProofs Require Import SortLib EditProofs.
+From Sismic Require Import Base Chart Edit IO IOCorr.
 Import ListNotations.
 Open Scope string_scope.
 Open Scope list_scope.
@@ -12,10 +87,10 @@ Open Scope list_scope.
 (* ================================================================== 1. C12_sound *)
 
 (* ---- erasing initial/memory: add_state/add_transition never look at them ---- *)
-Definition clr (s : state) : state :=
+Definition clr_refs (s : state) : state :=
   mkState (s_name s) (s_kind s) None None (s_on_entry s) (s_on_exit s) (s_pre s) (s_post s) (s_inv s).
 Definition erase (c : chart) : chart :=
-  with_states c (map (fun kv => (fst kv, clr (snd kv))) (c_states c)).
+  with_states c (map (fun kv => (fst kv, clr_refs (snd kv))) (c_states c)).
 
 Lemma has_state_erase : forall c n, has_state (erase c) n = has_state c n.
 Proof.
@@ -23,7 +98,7 @@ Proof.
   rewrite lookup_mapv. destruct (lookup n (c_states c)); reflexivity.
 Qed.
 
-Lemma lookup_erase : forall c n, lookup n (c_states (erase c)) = option_map clr (lookup n (c_states c)).
+Lemma lookup_erase : forall c n, lookup n (c_states (erase c)) = option_map clr_refs (lookup n (c_states c)).
 Proof. intros c n. unfold erase, with_states. cbn [c_states]. apply lookup_mapv. Qed.
 
 Lemma keys_erase : forall c, map fst (c_states (erase c)) = map fst (c_states c).
@@ -37,7 +112,7 @@ Proof.
 Qed.
 
 Lemma erase_register : forall c st p l,
-  erase (register_chart c st p l) = register_chart (erase c) (clr st) p l.
+  erase (register_chart c st p l) = register_chart (erase c) (clr_refs st) p l.
 Proof.
   intros c st p l. unfold erase, register_chart, with_states. cbn. rewrite map_dset. reflexivity.
 Qed.
@@ -218,7 +293,7 @@ Proof.
   - rewrite erase_register.
     apply register_sound;
       try match goal with
-          | |- has_state (erase _) _ = false => cbn [clr s_name]; rewrite has_state_erase; exact Hfresh
+          | |- has_state (erase _) _ = false => cbn [clr_refs s_name]; rewrite has_state_erase; exact Hfresh
           | |- forall q, _ = Some q -> has_state (erase _) q = true =>
               intros q E; rewrite has_state_erase; auto
           | |- memory_ok _ _ _ => intros mm E; discriminate E
@@ -323,7 +398,7 @@ Proof.
     intros t' Hin. apply in_app_or in Hin. destruct Hin as [Hin|[<-|[]]].
     + apply (sd_trans (erase c) HS); exact Hin.
     + split.
-      * exists (clr s). rewrite lookup_erase, Hs. split; [reflexivity|exact Ho].
+      * exists (clr_refs s). rewrite lookup_erase, Hs. split; [reflexivity|exact Ho].
       * intros tg E. rewrite has_state_erase. auto.
   - exact Hseen.
   - exact Hhist.
@@ -415,7 +490,7 @@ Proof.
   unfold validate in Hv. apply andb_true_iff in Hv. destruct Hv as [Hvi Hvm].
   constructor.
   - exact Hnd.
-  - intros k s Hl. pose proof (sd_keyname _ HS k (clr s)) as H. rewrite lookup_erase, Hl in H. apply H. reflexivity.
+  - intros k s Hl. pose proof (sd_keyname _ HS k (clr_refs s)) as H. rewrite lookup_erase, Hl in H. apply H. reflexivity.
   - apply (sd_nd_parent _ HS).
   - apply (sd_nd_children _ HS).
   - intros n. rewrite <- has_state_erase. apply (sd_pkeys _ HS).
@@ -1246,10 +1321,2102 @@ Proof.
   destruct (add_state c st p) as [c1 r]. destruct r; try (split; [discriminate|congruence]). apply IH.
 Qed.
 
+(* C12, last sentence, assembled *)
+Theorem C12_error_type : forall d,
+  (import_pipeline d = None \/ exists c, import_pipeline d = Some c) /\
+  (forall k1 k2, import_pipeline_f k1 k2 d = import_pipeline d) /\
+  (forall m root states trans,
+     ylookup "root state" m = Some (YMap root) ->
+     import_walk (S (count_nodes (YMap root))) [(root, None)] [] [] = Some (states, trans) ->
+     let e := empty_chart (match get_str "name" m with Some n => n | None => "" end)
+                          (get_str "description" m) (get_str "preamble" m) in
+     add_states_err e states = EOk \/ add_states_err e states = EStatechartError).
+Proof.
+  intros d. split; [destruct (import_pipeline d) as [c|]; [right; exists c; reflexivity|left; reflexivity]|].
+  split; [intros k1 k2; apply C12_error_type_fuel|].
+  intros m root states trans _ Hw e. eapply C12_error_type_no_keyerror. exact Hw.
+Qed.
+
+(* ================================================================== 4. C12_reject: import_from_dict and validate *)
+
+(* ---- what the registration loops build ---- *)
+Lemma add_state_ok_form : forall c st p c',
+  add_state c st p = (c', EOk) ->
+  has_state c (s_name st) = false /\ exists l, c' = register_chart c st p l.
+Proof.
+  intros c st p c' H. destruct (add_state_inv _ _ _ _ _ H (or_introl eq_refl)) as [Hf [_ Hreg]].
+  split; [exact Hf|]. destruct (olookup p (oset (Some (s_name st)) [] (c_children c))) as [l|]; [|discriminate].
+  destruct Hreg as [-> _]. exists l. reflexivity.
+Qed.
+
+Lemma add_states_spec : forall l c c', add_states c l = Some c' ->
+  NoDup (snames l) /\
+  (forall n, In n (snames l) -> has_state c n = false) /\
+  (forall k s, lookup k (c_states c) = Some s -> lookup k (c_states c') = Some s) /\
+  (forall k p, lookup k (c_parent c) = Some p -> has_state c k = true -> lookup k (c_parent c') = Some p) /\
+  (forall st p, In (st, p) l ->
+     lookup (s_name st) (c_states c') = Some st /\ lookup (s_name st) (c_parent c') = Some p) /\
+  (forall k s, lookup k (c_states c') = Some s -> lookup k (c_states c) = Some s \/ exists p, In (s, p) l) /\
+  c_transitions c' = c_transitions c.
+Proof.
+  induction l as [|[st p] l IH]; intros c c' H; cbn [add_states] in H.
+  - inv H. split; [constructor|]. split; [intros n []|]. split; [auto|]. split; [auto|].
+    split; [intros st p []|]. split; [auto|reflexivity].
+  - destruct (add_state c st p) as [c1 r] eqn:E. destruct r; try discriminate.
+    destruct (add_state_ok_form _ _ _ _ E) as [Hfresh [l0 ->]].
+    destruct (IH _ _ H) as [H1 [H2 [H3 [H4 [H5 [H6 H7]]]]]]. clear IH.
+    assert (Hnm : has_state (register_chart c st p l0) (s_name st) = true).
+    { rewrite has_state_register, seqb_refl. reflexivity. }
+    assert (Hst : lookup (s_name st) (c_states (register_chart c st p l0)) = Some st).
+    { unfold register_chart. cbn [c_states]. rewrite lookup_dset, seqb_refl. reflexivity. }
+    assert (Hpa : lookup (s_name st) (c_parent (register_chart c st p l0)) = Some p).
+    { unfold register_chart. cbn [c_parent]. rewrite lookup_dset, seqb_refl. reflexivity. }
+    split; [|split; [|split; [|split; [|split; [|split]]]]].
+    + cbn [snames map fst]. constructor; [|exact H1]. intros Hin. rewrite (H2 _ Hin) in Hnm. discriminate.
+    + intros n [<-|Hin]; [exact Hfresh|]. specialize (H2 _ Hin). rewrite has_state_register in H2.
+      apply orb_false_iff in H2. apply H2.
+    + intros k s Hk. apply H3. unfold register_chart. cbn [c_states]. rewrite lookup_dset.
+      destruct (seqbP k (s_name st)) as [->|_]; [|exact Hk]. apply has_state_false in Hfresh. congruence.
+    + intros k q Hk Hhas. apply H4.
+      * unfold register_chart. cbn [c_parent]. rewrite lookup_dset.
+        destruct (seqbP k (s_name st)) as [->|_]; [congruence|exact Hk].
+      * rewrite has_state_register, Hhas. apply orb_true_r.
+    + intros st' p' [E0|Hin]; [inv E0; split; [apply H3; exact Hst|apply H4; assumption]|apply (H5 _ _ Hin)].
+    + intros k s Hk. destruct (H6 _ _ Hk) as [Hk1|[q Hq]]; [|right; exists q; right; exact Hq].
+      unfold register_chart in Hk1. cbn [c_states] in Hk1. rewrite lookup_dset in Hk1.
+      destruct (str_eqb k (s_name st)); [inv Hk1; right; exists p; left; reflexivity|left; exact Hk1].
+    + rewrite H7. reflexivity.
+Qed.
+
+Lemma add_transitions_list : forall l c c', add_transitions c l = Some c' ->
+  c_transitions c' = c_transitions c ++ l /\ c_states c' = c_states c /\ c_parent c' = c_parent c.
+Proof.
+  induction l as [|t l IH]; intros c c' H; cbn [add_transitions] in H.
+  - inv H. rewrite app_nil_r. auto.
+  - destruct (add_transition c t) as [c1 r] eqn:E. destruct r; try discriminate.
+    destruct (add_transition_ok_inv _ _ _ E) as [-> _]. destruct (IH _ _ H) as [H1 [H2 H3]].
+    rewrite H1, H2, H3. cbn. rewrite <- app_assoc. auto.
+Qed.
+
+(* a statechart assembled from the lists produced by the loop *)
+Record built (states : list (state * option name)) (trans : list transition) (c : chart) : Prop := mkBuilt {
+  bl_nodup : NoDup (snames states);
+  bl_state : forall st p, In (st, p) states ->
+      lookup (s_name st) (c_states c) = Some st /\ lookup (s_name st) (c_parent c) = Some p;
+  bl_from : forall k s, lookup k (c_states c) = Some s -> exists p, In (s, p) states;
+  bl_trans : c_transitions c = trans;
+  bl_sound : import_sound c
+}.
+
+Lemma import_pipeline_built : forall d c,
+  import_pipeline d = Some c ->
+  exists m nm root states trans,
+    schema_statechart d = Some (doc m) /\ get_str "name" m = Some nm /\
+    ylookup "root state" m = Some (YMap root) /\
+    import_walk (S (count_nodes (YMap root))) [(root, None)] [] [] = Some (states, trans) /\
+    built states trans c.
+Proof.
+  intros d c H. pose proof (C12_sound _ _ H) as IS.
+  destruct (import_pipeline_inv _ _ H) as [d' [Hs [Hi Hv]]].
+  destruct (import_from_dict_inv _ _ Hi) as [m [nm [root [states [trans [c1 [-> [Hn [Hr [Hw [Ha Ht]]]]]]]]]]].
+  exists m, nm, root, states, trans.
+  split; [exact Hs|]. split; [exact Hn|]. split; [exact Hr|]. split; [exact Hw|].
+  destruct (add_states_spec _ _ _ Ha) as [H1 [H2 [H3 [H4 [H5 [H6 H7]]]]]].
+  destruct (add_transitions_list _ _ _ Ht) as [T1 [T2 T3]].
+  constructor; auto.
+  - intros st p Hin. rewrite T2, T3. apply (H5 _ _ Hin).
+  - intros k s Hk. rewrite T2 in Hk. destruct (H6 _ _ Hk) as [Hk0|Hex]; [discriminate|exact Hex].
+  - rewrite T1, H7. reflexivity.
+Qed.
+
+Lemma built_name_in : forall states trans c, built states trans c ->
+  forall n, has_state c n = true -> exists s p, In (s, p) states /\ s_name s = n /\ lookup n (c_states c) = Some s.
+Proof.
+  intros states trans c B n Hn. apply has_state_Some in Hn. destruct Hn as [s Hs].
+  destruct (bl_from _ _ _ B _ _ Hs) as [p Hp]. exists s, p. split; [exact Hp|]. split; [|exact Hs].
+  apply (is_keyname c (bl_sound _ _ _ B) _ _ Hs).
+Qed.
+
+Lemma built_child_in : forall states trans c, built states trans c ->
+  forall k ch, In ch (children_for c k) -> exists s, In (s, Some k) states /\ s_name s = ch.
+Proof.
+  intros states trans c B k ch Hin. pose proof (bl_sound _ _ _ B) as IS.
+  pose proof (import_sound_child_state c IS _ _ Hin) as Hch.
+  destruct (built_name_in _ _ _ B _ Hch) as [s [p [Hp [Hnm _]]]].
+  exists s. split; [|exact Hnm].
+  unfold children_for in Hin. destruct (olookup (Some k) (c_children c)) as [l|] eqn:El; [|destruct Hin].
+  pose proof (is_cp c IS _ _ _ El Hin) as Hpar.
+  destruct (bl_state _ _ _ B _ _ Hp) as [_ Hpar']. rewrite Hnm, Hpar in Hpar'. inv Hpar'. exact Hp.
+Qed.
+
+(* ---- the fault classes, on the lists produced by the loop ---- *)
+Lemma built_no_duplicate : forall states trans c, built states trans c -> NoDup (snames states).
+Proof. intros states trans c B. apply (bl_nodup _ _ _ B). Qed.
+
+Lemma built_source_owns : forall states trans c, built states trans c ->
+  forall t st p, In t trans -> In (st, p) states -> t_source t = s_name st ->
+  owns_transitions (s_kind st) = true.
+Proof.
+  intros states trans c B t st p Ht Hst Hsrc. rewrite <- (bl_trans _ _ _ B) in Ht.
+  destruct (is_trans c (bl_sound _ _ _ B) t Ht) as [[s [Hs Ho]] _].
+  destruct (bl_state _ _ _ B _ _ Hst) as [Hl _]. rewrite Hsrc, Hl in Hs. inv Hs. exact Ho.
+Qed.
+
+Lemma built_target_exists : forall states trans c, built states trans c ->
+  forall t tg, In t trans -> t_target t = Some tg -> In tg (snames states).
+Proof.
+  intros states trans c B t tg Ht Htg. rewrite <- (bl_trans _ _ _ B) in Ht.
+  destruct (is_trans c (bl_sound _ _ _ B) t Ht) as [_ Hx]. specialize (Hx tg Htg).
+  destruct (built_name_in _ _ _ B _ Hx) as [s [p [Hin [Hnm _]]]]. rewrite <- Hnm.
+  unfold snames. apply (in_map (fun e => s_name (fst e)) _ _ Hin).
+Qed.
+
+Lemma built_history_parent : forall states trans c, built states trans c ->
+  forall st p, In (st, p) states -> is_history (s_kind st) = true ->
+  exists pn, p = Some pn /\ forall pst pp, In (pst, pp) states -> s_name pst = pn -> s_kind pst = KCompound.
+Proof.
+  intros states trans c B st p Hin Hh. destruct (bl_state _ _ _ B _ _ Hin) as [Hl Hp].
+  destruct (is_hist c (bl_sound _ _ _ B) _ _ Hl Hh) as [q [ps [H1 [H2 H3]]]].
+  rewrite Hp in H1. inv H1. exists q. split; [reflexivity|]. intros pst pp Hpst Hnm.
+  destruct (bl_state _ _ _ B _ _ Hpst) as [Hl' _]. rewrite Hnm, H2 in Hl'. inv Hl'. exact H3.
+Qed.
+
+Lemma built_initial_child : forall states trans c, built states trans c ->
+  forall st p i, In (st, p) states -> s_kind st = KCompound -> truthy (s_initial st) = Some i ->
+  exists ch, In (ch, Some (s_name st)) states /\ s_name ch = i.
+Proof.
+  intros states trans c B st p i Hin Hk Hi. destruct (bl_state _ _ _ B _ _ Hin) as [Hl _].
+  apply (built_child_in _ _ _ B). apply (is_init c (bl_sound _ _ _ B) _ _ _ Hl Hk Hi).
+Qed.
+
+Lemma built_memory_sibling : forall states trans c, built states trans c ->
+  forall st p mm, In (st, p) states -> is_history (s_kind st) = true -> s_memory st = Some mm ->
+  mm <> s_name st /\ exists sib, In (sib, p) states /\ s_name sib = mm.
+Proof.
+  intros states trans c B st p mm Hin Hh Hm. destruct (bl_state _ _ _ B _ _ Hin) as [Hl Hp].
+  destruct (is_mem c (bl_sound _ _ _ B) _ _ _ Hl Hh Hm) as [H1 [q [H2 H3]]]. split; [exact H1|].
+  apply parent_for_Some in H2. rewrite Hp in H2. inv H2. apply (built_child_in _ _ _ B). exact H3.
+Qed.
+
+(* ---- the state nodes the importer visits ----
+   walk_in m p x xp: starting from the node m registered under parent p, the loop reaches the node x and
+   registers it under parent xp (children of a compound state under 'states', of an orthogonal state under
+   'parallel states'; the substates written under a final/history state are ignored by the importer) *)
+Inductive walk_in : list (string * ydata) -> option name -> list (string * ydata) -> option name -> Prop :=
+| wi_here : forall m p, walk_in m p m p
+| wi_sub : forall m p st sm x xp, import_state m = Some st -> In (YMap sm) (subs_of st m) ->
+    walk_in sm (Some (s_name st)) x xp -> walk_in m p x xp.
+
+Lemma walk_in_snoc : forall m p x xp st sm,
+  walk_in m p x xp -> import_state x = Some st -> In (YMap sm) (subs_of st x) ->
+  walk_in m p sm (Some (s_name st)).
+Proof.
+  intros m p x xp st sm H; induction H as [m p|m p st0 sm0 x xp H1 H2 H3 IH]; intros Hx Hs.
+  - eapply wi_sub; [exact Hx|exact Hs|apply wi_here].
+  - eapply wi_sub; [exact H1|exact H2|]. apply IH; assumption.
+Qed.
+
+Lemma In_push_subs_acc : forall nm subs acc e, In e acc -> In e (push_subs nm subs acc).
+Proof.
+  intros nm subs; induction subs as [|d subs IH]; intros acc e H; [exact H|].
+  change (push_subs nm (d :: subs) acc)
+    with (push_subs nm subs (match d with YMap sm => acc ++ [(sm, Some nm)] | _ => acc end)).
+  apply IH. destruct d; try exact H. apply in_or_app; left; exact H.
+Qed.
+
+Lemma In_push_subs_new : forall nm subs acc sm, In (YMap sm) subs -> In (sm, Some nm) (push_subs nm subs acc).
+Proof.
+  intros nm subs; induction subs as [|d subs IH]; intros acc sm H; [destruct H|].
+  change (push_subs nm (d :: subs) acc)
+    with (push_subs nm subs (match d with YMap sm => acc ++ [(sm, Some nm)] | _ => acc end)).
+  destruct H as [->|H]; [|apply IH; exact H].
+  apply In_push_subs_acc. apply in_or_app; right; left; reflexivity.
+Qed.
+
+Lemma In_push_trans_acc : forall nm ts acc t, In t acc -> In t (push_trans nm ts acc).
+Proof.
+  intros nm ts; induction ts as [|d ts IH]; intros acc t H; [exact H|].
+  change (push_trans nm (d :: ts) acc)
+    with (push_trans nm ts (match d with YMap tm => acc ++ [import_transition nm tm] | _ => acc end)).
+  apply IH. destruct d; try exact H. apply in_or_app; left; exact H.
+Qed.
+
+Lemma In_push_trans_new : forall nm ts acc tm,
+  In (YMap tm) ts -> In (import_transition nm tm) (push_trans nm ts acc).
+Proof.
+  intros nm ts; induction ts as [|d ts IH]; intros acc tm H; [destruct H|].
+  change (push_trans nm (d :: ts) acc)
+    with (push_trans nm ts (match d with YMap tm => acc ++ [import_transition nm tm] | _ => acc end)).
+  destruct H as [->|H]; [|apply IH; exact H].
+  apply In_push_trans_acc. apply in_or_app; right; left; reflexivity.
+Qed.
+
+(* completeness: every visited node is registered, with its transitions *)
+Lemma import_walk_complete : forall fuel stack states trans res,
+  import_walk fuel stack states trans = Some res ->
+  (forall e, In e states -> In e (fst res)) /\
+  (forall t, In t trans -> In t (snd res)) /\
+  (forall m p x xp, In (m, p) stack -> walk_in m p x xp ->
+     exists st, import_state x = Some st /\ In (st, xp) (fst res) /\
+       forall tm, In (YMap tm) (ylist_of "transitions" x) -> In (import_transition (s_name st) tm) (snd res)).
+Proof.
+  induction fuel as [|f IH]; intros stack states trans res H; [discriminate|].
+  rewrite import_walk_S in H. destruct (rev stack) as [|[m0 p0] rr] eqn:Er.
+  - inv H. cbn [fst snd]. split; [auto|]. split; [auto|].
+    intros m p x xp Hin. apply in_rev in Hin. rewrite Er in Hin. destruct Hin.
+  - destruct (import_state m0) as [st0|] eqn:Em0; [|discriminate].
+    destruct (IH _ _ _ _ H) as [I1 [I2 I3]]. clear IH.
+    split; [intros e He; apply I1; apply in_or_app; left; exact He|].
+    split; [intros t Ht; apply I2; apply In_push_trans_acc; exact Ht|].
+    intros m p x xp Hin Hw. apply in_rev in Hin. rewrite Er in Hin. destruct Hin as [E|Hin].
+    + inv E. inversion Hw as [m' p'|m' p' st sm x' xp' H1 H2 H3]; subst.
+      * exists st0. split; [exact Em0|]. split; [apply I1; apply in_or_app; right; left; reflexivity|].
+        intros tm Htm. apply I2. apply In_push_trans_new. exact Htm.
+      * rewrite Em0 in H1. inv H1. apply (I3 sm (Some (s_name st)) x xp); [|exact H3].
+        apply In_push_subs_new. exact H2.
+    + apply (I3 m p x xp); [|exact Hw]. apply In_push_subs_acc. apply (proj1 (in_rev rr (m, p))). exact Hin.
+Qed.
+
+(* soundness: every registered state is a visited node *)
+Lemma import_walk_provenance : forall fuel stack states trans res,
+  import_walk fuel stack states trans = Some res ->
+  forall st xp, In (st, xp) (fst res) ->
+    In (st, xp) states \/
+    exists m p x, In (m, p) stack /\ walk_in m p x xp /\ import_state x = Some st.
+Proof.
+  induction fuel as [|f IH]; intros stack states trans res H st xp Hin; [discriminate|].
+  rewrite import_walk_S in H. destruct (rev stack) as [|[m0 p0] rr] eqn:Er.
+  - inv H. left; exact Hin.
+  - destruct (import_state m0) as [st0|] eqn:Em0; [|discriminate].
+    assert (Hm0 : In (m0, p0) stack) by (apply in_rev; rewrite Er; left; reflexivity).
+    destruct (IH _ _ _ _ H st xp Hin) as [Hs|[m [p [x [Hst [Hw Hx]]]]]].
+    + apply in_app_or in Hs. destruct Hs as [Hs|[E|[]]]; [left; exact Hs|]. inv E.
+      right. exists m0, xp, m0. split; [exact Hm0|]. split; [apply wi_here|exact Em0].
+    + right. apply In_push_subs in Hst. destruct Hst as [Hst|[sm [E Hsm]]].
+      * exists m, p, x. split; [|split; assumption]. apply in_rev. rewrite Er. right. apply in_rev. exact Hst.
+      * inv E. exists m0, p0, x. split; [exact Hm0|]. split; [|exact Hx].
+        eapply wi_sub; [exact Em0|exact Hsm|exact Hw].
+Qed.
+
+Lemma root_walk_complete : forall f root states trans x xp,
+  import_walk f [(root, None)] [] [] = Some (states, trans) -> walk_in root None x xp ->
+  exists st, import_state x = Some st /\ In (st, xp) states /\
+    forall tm, In (YMap tm) (ylist_of "transitions" x) -> In (import_transition (s_name st) tm) trans.
+Proof.
+  intros f root states trans x xp H Hw.
+  destruct (import_walk_complete _ _ _ _ _ H) as [_ [_ H3]].
+  apply (H3 root None x xp); [left; reflexivity|exact Hw].
+Qed.
+
+Lemma root_walk_provenance : forall f root states trans st xp,
+  import_walk f [(root, None)] [] [] = Some (states, trans) -> In (st, xp) states ->
+  exists x, walk_in root None x xp /\ import_state x = Some st.
+Proof.
+  intros f root states trans st xp H Hin.
+  destruct (import_walk_provenance _ _ _ _ _ H st xp Hin) as [[]|[m [p [x [[E|[]] [Hw Hx]]]]]].
+  inv E. exists x. split; assumption.
+Qed.
+
+Lemma import_transition_source : forall nm tm, t_source (import_transition nm tm) = nm.
+Proof. intros nm tm. unfold import_transition. destruct (import_contract _ _ _ _) as [[a b] c0]. reflexivity. Qed.
+Lemma import_transition_target : forall nm tm, t_target (import_transition nm tm) = get_str "target" tm.
+Proof. intros nm tm. unfold import_transition. destruct (import_contract _ _ _ _) as [[a b] c0]. reflexivity. Qed.
+
+(* ---- the fault classes on the (schema-validated) document handed to import_from_dict ---- *)
+Section ImportFaults.
+  Variables (d : ydata) (m root : list (string * ydata)).
+  Hypothesis Hschema : schema_statechart d = Some (doc m).
+  Hypothesis Hroot : ylookup "root state" m = Some (YMap root).
+
+  Lemma reject_by_contradiction :
+    (forall c states trans,
+       import_walk (S (count_nodes (YMap root))) [(root, None)] [] [] = Some (states, trans) ->
+       built states trans c -> False) ->
+    import_pipeline d = None.
+  Proof.
+    intros H. destruct (import_pipeline d) as [c|] eqn:E; [exfalso|reflexivity].
+    destruct (import_pipeline_built _ _ E) as [m' [nm [root' [states [trans [Hs [_ [Hr [Hw B]]]]]]]]].
+    rewrite Hschema in Hs. inv Hs. rewrite Hroot in Hr. inv Hr. eapply H; eauto.
+  Qed.
+
+  (* a visited state that cannot be built: both 'states' and 'parallel states' non-empty, ... *)
+  Theorem C12_reject_import_state : forall x xp,
+    walk_in root None x xp -> import_state x = None -> import_pipeline d = None.
+  Proof.
+    intros x xp Hw Hx. apply reject_by_contradiction. intros c states trans H _.
+    destruct (root_walk_complete _ _ _ _ _ _ H Hw) as [st [Hst _]]. congruence.
+  Qed.
+
+  Theorem C12_reject_both_states_and_parallel : forall x xp a la b lb,
+    walk_in root None x xp -> ylookup "type" x = None ->
+    ylist_of "states" x = a :: la -> ylist_of "parallel states" x = b :: lb -> import_pipeline d = None.
+  Proof.
+    intros x xp a la b lb Hw Ht Ha Hb. apply (C12_reject_import_state x xp Hw).
+    rewrite import_state_eq. unfold import_state', state_kind. rewrite Ht, Ha, Hb.
+    destruct (get_str "name" x); reflexivity.
+  Qed.
+
+  (* two visited nodes with the same name (which differ in something else: the parent, the kind, ...) *)
+  Theorem C12_reject_duplicate_name : forall x xp y yp sx sy,
+    walk_in root None x xp -> walk_in root None y yp ->
+    import_state x = Some sx -> import_state y = Some sy ->
+    s_name sx = s_name sy -> (sx, xp) <> (sy, yp) -> import_pipeline d = None.
+  Proof.
+    intros x xp y yp sx sy Hx Hy Ex Ey Hnm Hne. apply reject_by_contradiction. intros c states trans H B.
+    destruct (root_walk_complete _ _ _ _ _ _ H Hx) as [sx' [Ex' [Hinx _]]].
+    destruct (root_walk_complete _ _ _ _ _ _ H Hy) as [sy' [Ey' [Hiny _]]].
+    rewrite Ex in Ex'. inv Ex'. rewrite Ey in Ey'. inv Ey'.
+    destruct (bl_state _ _ _ B _ _ Hinx) as [H1 H2]. destruct (bl_state _ _ _ B _ _ Hiny) as [H3 H4].
+    rewrite Hnm in H1, H2. rewrite H3 in H1. rewrite H4 in H2. inv H1. inv H2. apply Hne. reflexivity.
+  Qed.
+
+  (* in general: the list of registered names has a repetition *)
+  Theorem C12_reject_duplicate_name_list : forall states trans,
+    import_walk (S (count_nodes (YMap root))) [(root, None)] [] [] = Some (states, trans) ->
+    ~ NoDup (snames states) -> import_pipeline d = None.
+  Proof.
+    intros states trans Hw Hnd. apply reject_by_contradiction. intros c states' trans' H B.
+    rewrite Hw in H. inv H. apply Hnd. apply (bl_nodup _ _ _ B).
+  Qed.
+
+  Theorem C12_reject_transition_on_final_or_history : forall x xp st tm,
+    walk_in root None x xp -> import_state x = Some st -> owns_transitions (s_kind st) = false ->
+    In (YMap tm) (ylist_of "transitions" x) -> import_pipeline d = None.
+  Proof.
+    intros x xp st tm Hw Hx Ho Htm. apply reject_by_contradiction. intros c states trans H B.
+    destruct (root_walk_complete _ _ _ _ _ _ H Hw) as [st' [Hx' [Hin Ht]]]. rewrite Hx in Hx'. inv Hx'.
+    pose proof (built_source_owns _ _ _ B _ _ _ (Ht _ Htm) Hin (import_transition_source _ _)). congruence.
+  Qed.
+
+  Theorem C12_reject_unknown_target : forall x xp tm tg,
+    walk_in root None x xp -> In (YMap tm) (ylist_of "transitions" x) -> get_str "target" tm = Some tg ->
+    (forall y yp sy, walk_in root None y yp -> import_state y = Some sy -> s_name sy <> tg) ->
+    import_pipeline d = None.
+  Proof.
+    intros x xp tm tg Hw Htm Htg Hno. apply reject_by_contradiction. intros c states trans H B.
+    destruct (root_walk_complete _ _ _ _ _ _ H Hw) as [st [Hx [Hin Ht]]].
+    assert (Htg' : t_target (import_transition (s_name st) tm) = Some tg).
+    { rewrite import_transition_target. exact Htg. }
+    pose proof (built_target_exists _ _ _ B _ _ (Ht _ Htm) Htg') as Hin'.
+    unfold snames in Hin'. apply in_map_iff in Hin'. destruct Hin' as [[sy yp] [Hnm Hsy]]. cbn [fst] in Hnm.
+    destruct (root_walk_provenance _ _ _ _ _ _ H Hsy) as [y [Hy Ey]]. apply (Hno y yp sy Hy Ey Hnm).
+  Qed.
+
+  Theorem C12_reject_history_root : forall st,
+    import_state root = Some st -> is_history (s_kind st) = true -> import_pipeline d = None.
+  Proof.
+    intros st Hst Hh. apply reject_by_contradiction. intros c states trans H B.
+    destruct (root_walk_complete _ _ _ _ _ _ H (wi_here root None)) as [st' [Hx [Hin _]]].
+    rewrite Hst in Hx. inv Hx.
+    destruct (built_history_parent _ _ _ B _ _ Hin Hh) as [pn [E _]]. discriminate.
+  Qed.
+
+  Theorem C12_reject_history_under_non_compound : forall x xp px sub st,
+    walk_in root None x xp -> import_state x = Some px -> s_kind px <> KCompound ->
+    In (YMap sub) (subs_of px x) -> import_state sub = Some st -> is_history (s_kind st) = true ->
+    import_pipeline d = None.
+  Proof.
+    intros x xp px sub st Hw Hx Hk Hsub Hst Hh. apply reject_by_contradiction. intros c states trans H B.
+    destruct (root_walk_complete _ _ _ _ _ _ H Hw) as [px' [Hx' [Hinx _]]]. rewrite Hx in Hx'. inv Hx'.
+    destruct (root_walk_complete _ _ _ _ _ _ H (walk_in_snoc _ _ _ _ _ _ Hw Hx Hsub)) as [st' [Hs' [Hins _]]].
+    rewrite Hst in Hs'. inv Hs'.
+    destruct (built_history_parent _ _ _ B _ _ Hins Hh) as [pn [E Hall]]. inv E.
+    apply Hk. apply (Hall _ _ Hinx eq_refl).
+  Qed.
+
+  (* initial names no state registered as a child of a state of that name *)
+  Theorem C12_reject_initial_not_child : forall x xp st i,
+    walk_in root None x xp -> import_state x = Some st -> s_kind st = KCompound ->
+    truthy (s_initial st) = Some i ->
+    (forall y sy, walk_in root None y (Some (s_name st)) -> import_state y = Some sy -> s_name sy <> i) ->
+    import_pipeline d = None.
+  Proof.
+    intros x xp st i Hw Hx Hk Hi Hno. apply reject_by_contradiction. intros c states trans H B.
+    destruct (root_walk_complete _ _ _ _ _ _ H Hw) as [st' [Hx' [Hin _]]]. rewrite Hx in Hx'. inv Hx'.
+    destruct (built_initial_child _ _ _ B _ _ _ Hin Hk Hi) as [ch [Hch Hnm]].
+    destruct (root_walk_provenance _ _ _ _ _ _ H Hch) as [y [Hy Ey]]. apply (Hno y ch Hy Ey Hnm).
+  Qed.
+
+  (* memory names the history state itself, or no state registered under the same parent *)
+  Theorem C12_reject_memory_not_sibling : forall x xp st mm,
+    walk_in root None x xp -> import_state x = Some st -> is_history (s_kind st) = true ->
+    s_memory st = Some mm ->
+    (mm = s_name st \/
+     forall y sy, walk_in root None y xp -> import_state y = Some sy -> s_name sy <> mm) ->
+    import_pipeline d = None.
+  Proof.
+    intros x xp st mm Hw Hx Hh Hm Hno. apply reject_by_contradiction. intros c states trans H B.
+    destruct (root_walk_complete _ _ _ _ _ _ H Hw) as [st' [Hx' [Hin _]]]. rewrite Hx in Hx'. inv Hx'.
+    destruct (built_memory_sibling _ _ _ B _ _ _ Hin Hh Hm) as [Hne [sib [Hsib Hnm]]].
+    destruct Hno as [E|Hno]; [congruence|].
+    destruct (root_walk_provenance _ _ _ _ _ _ H Hsib) as [y [Hy Ey]]. apply (Hno y sib Hy Ey Hnm).
+  Qed.
+End ImportFaults.
+
+(* ================================================================== 5. C11: export then import *)
+
+(* ---- looking keys up in the dictionaries written by export_to_dict ---- *)
+Lemma ylookup_app : forall k a b,
+  ylookup k (a ++ b) = match ylookup k a with Some v => Some v | None => ylookup k b end.
+Proof.
+  intros k a b; induction a as [|[k0 v0] a IH]; cbn [ylookup app]; [reflexivity|].
+  destruct (str_eqb k k0); [reflexivity|exact IH].
+Qed.
+
+Lemma ylookup_opt_field : forall k k' o,
+  ylookup k (opt_field k' o) = if str_eqb k k' then option_map YStr (keep_opt o) else None.
+Proof.
+  intros k k' o. unfold opt_field, keep_opt. destruct o as [s|]; [|destruct (str_eqb k k'); reflexivity].
+  destruct (nonempty s); cbn [ylookup option_map]; destruct (str_eqb k k'); reflexivity.
+Qed.
+
+Definition contract_items (pre post inv : list code) : list ydata :=
+  map (fun c => YMap [("before", YStr c)]) pre ++ map (fun c => YMap [("after", YStr c)]) post
+  ++ map (fun c => YMap [("always", YStr c)]) inv.
+
+Lemma export_contract_cases : forall pre post inv,
+  (pre = [] /\ post = [] /\ inv = [] /\ export_contract pre post inv = []) \/
+  export_contract pre post inv = [("contract", YList (contract_items pre post inv))].
+Proof.
+  intros [|a pre] [|b post] [|c inv]; try (right; reflexivity). left. repeat split; reflexivity.
+Qed.
+
+Lemma ylookup_export_contract : forall k pre post inv,
+  k <> "contract" -> ylookup k (export_contract pre post inv) = None.
+Proof.
+  intros k pre post inv Hk.
+  destruct (export_contract_cases pre post inv) as [[_ [_ [_ ->]]]| ->]; [reflexivity|].
+  cbn [ylookup]. apply seqb_neq in Hk. rewrite Hk. reflexivity.
+Qed.
+
+Lemma contract_list_export : forall pre post inv,
+  match ylookup "contract" (export_contract pre post inv) with Some (YList l) => l | _ => [] end
+  = contract_items pre post inv.
+Proof.
+  intros pre post inv.
+  destruct (export_contract_cases pre post inv) as [[-> [-> [-> ->]]]| ->]; reflexivity.
+Qed.
+
+(* ---- contracts: import after export strips every condition ---- *)
+Definition codes_ok (l : list code) : Prop := forall x, In x l -> nonempty x = true.
+
+Lemma import_contract_items : forall pre post inv a b c,
+  codes_ok pre -> codes_ok post -> codes_ok inv ->
+  import_contract (contract_items pre post inv) a b c
+  = (a ++ map strip pre, b ++ map strip post, c ++ map strip inv).
+Proof.
+  unfold contract_items.
+  induction pre as [|x pre IH]; intros post inv a b c Hp Hq Hr.
+  - cbn [map app]. rewrite app_nil_r. revert b c.
+    induction post as [|y post IHq]; intros b c.
+    + cbn [map app]. rewrite app_nil_r. revert c.
+      induction inv as [|z inv IHr]; intros c.
+      * cbn. rewrite app_nil_r. reflexivity.
+      * cbn [map import_contract]. cbn [get_str ylookup str_eqb String.eqb Ascii.eqb Bool.eqb].
+        rewrite (Hr z (or_introl eq_refl)). rewrite IHr; [|intros w Hw; apply Hr; right; exact Hw].
+        rewrite <- app_assoc. reflexivity.
+    + cbn [map app import_contract]. cbn [get_str ylookup str_eqb String.eqb Ascii.eqb Bool.eqb].
+      rewrite (Hq y (or_introl eq_refl)). rewrite IHq; [|intros w Hw; apply Hq; right; exact Hw].
+      rewrite <- app_assoc. reflexivity.
+  - cbn [map app import_contract]. cbn [get_str ylookup str_eqb String.eqb Ascii.eqb Bool.eqb].
+    rewrite (Hp x (or_introl eq_refl)). rewrite IH; auto; [|intros w Hw; apply Hp; right; exact Hw].
+    rewrite <- app_assoc. reflexivity.
+Qed.
+
+(* ---- priorities: high / low / integer is a bijection ---- *)
+Definition export_priority (z : Z) : list (string * ydata) :=
+  if Z.eqb z 0 then []
+  else [("priority", if Z.eqb z (-1) then YStr "low" else if Z.eqb z 1 then YStr "high" else YInt z)].
+
+Definition import_priority (m : list (string * ydata)) : Z :=
+  match ylookup "priority" m with
+  | Some (YStr "low") => (-1)%Z
+  | Some (YStr "high") => 1%Z
+  | Some (YInt z) => z
+  | _ => 0%Z
+  end.
+
+Lemma priority_roundtrip : forall z, import_priority (export_priority z) = z.
+Proof.
+  intros z. unfold export_priority, import_priority.
+  destruct (Z.eqb_spec z 0) as [->|H0]; [reflexivity|].
+  destruct (Z.eqb_spec z (-1)) as [->|H1]; [reflexivity|].
+  destruct (Z.eqb_spec z 1) as [->|H2]; reflexivity.
+Qed.
+
+Lemma use_priority_export : forall z k v, In (k, v) (export_priority z) -> use_priority v = Some v.
+Proof.
+  intros z k v. unfold export_priority.
+  destruct (Z.eqb z 0); [intros []|]. intros [E|[]]. inv E.
+  destruct (Z.eqb z (-1)); [reflexivity|]. destruct (Z.eqb z 1); reflexivity.
+Qed.
+
+(* ---- one transition ---- *)
+Ltac lit :=
+  repeat match goal with
+         | |- context [str_eqb ?a ?b] =>
+             let v := eval vm_compute in (str_eqb a b) in
+             match v with true => idtac | false => idtac end;
+             change (str_eqb a b) with v
+         end.
+
+Definition tfields (t : transition) : list (string * ydata) :=
+  opt_field "event" (t_event t) ++ opt_field "guard" (t_guard t) ++ opt_field "target" (t_target t)
+  ++ opt_field "action" (t_action t) ++ export_priority (t_priority t)
+  ++ export_contract (t_pre t) (t_post t) (t_inv t).
+
+Lemma export_transition_eq : forall t, export_transition t = YMap (tfields t).
+Proof. reflexivity. Qed.
+
+Lemma ylookup_export_priority : forall k z, k <> "priority" -> ylookup k (export_priority z) = None.
+Proof.
+  intros k z Hk. unfold export_priority. destruct (Z.eqb z 0); [reflexivity|].
+  cbn [ylookup]. apply seqb_neq in Hk. rewrite Hk. reflexivity.
+Qed.
+
+Lemma get_opt_YStr : forall o : option string,
+  match option_map YStr o with Some (YStr s) => Some s | _ => None end = o.
+Proof. intros [s|]; reflexivity. Qed.
+
+
+Lemma strip_opt_keep : forall o, strip_opt (keep_opt o) = norm_opt o.
+Proof. intros [x|]; cbn; [|reflexivity]. destruct (nonempty x) eqn:E; cbn; [rewrite E|]; reflexivity. Qed.
+
+Lemma get_str_tfields : forall t,
+  get_str "event" (tfields t) = keep_opt (t_event t) /\
+  get_str "guard" (tfields t) = keep_opt (t_guard t) /\
+  get_str "target" (tfields t) = keep_opt (t_target t) /\
+  get_str "action" (tfields t) = keep_opt (t_action t).
+Proof.
+  intros t. unfold get_str, tfields.
+  repeat split; rewrite !ylookup_app, !ylookup_opt_field; lit; cbn iota;
+    rewrite ylookup_export_priority, ylookup_export_contract by discriminate;
+    match goal with |- context [keep_opt ?o] => destruct (keep_opt o); reflexivity end.
+Qed.
+
+Lemma import_priority_tfields : forall t, import_priority (tfields t) = t_priority t.
+Proof.
+  intros t. transitivity (import_priority (export_priority (t_priority t))); [|apply priority_roundtrip].
+  unfold import_priority, tfields.
+  rewrite !ylookup_app, !ylookup_opt_field; lit; cbn iota.
+  destruct (ylookup "priority" (export_priority (t_priority t))) eqn:E; [reflexivity|].
+  rewrite ylookup_export_contract by discriminate. reflexivity.
+Qed.
+
+Lemma contract_list_tfields : forall t,
+  contract_list (tfields t) = contract_items (t_pre t) (t_post t) (t_inv t).
+Proof.
+  intros t. unfold contract_list, tfields.
+  rewrite !ylookup_app, !ylookup_opt_field; lit; cbn iota.
+  rewrite ylookup_export_priority by discriminate. apply contract_list_export.
+Qed.
+
+Definition trans_codes_ok (t : transition) : Prop := codes_ok (t_pre t) /\ codes_ok (t_post t) /\ codes_ok (t_inv t).
+
+(* C11, one transition *)
+Lemma import_export_transition : forall t,
+  trans_codes_ok t -> import_transition (t_source t) (tfields t) = strip_trans t.
+Proof.
+  intros t [H1 [H2 H3]]. unfold import_transition. fold (import_priority (tfields t)).
+  rewrite contract_list_tfields, (import_contract_items _ _ _ [] [] [] H1 H2 H3). cbn [app].
+  destruct (get_str_tfields t) as [E1 [E2 [E3 E4]]]. rewrite E1, E2, E3, E4, import_priority_tfields.
+  rewrite !strip_opt_keep. reflexivity.
+Qed.
+
+(* ---- one state ---- *)
+Definition trseg (c : chart) (s : state) : list (string * ydata) :=
+  if owns_transitions (s_kind s) then
+    match transitions_from c (s_name s) with
+    | [] => []
+    | ts => [("transitions", YList (map export_transition ts))]
+    end
+  else [].
+
+Definition kidseg (s : state) (kids : list ydata) : list (string * ydata) :=
+  match s_kind s with
+  | KCompound => [("states", YList kids)]
+  | KOrthogonal => [("parallel states", YList kids)]
+  | _ => []
+  end.
+
+Definition efields (c : chart) (s : state) (kids : list ydata) : list (string * ydata) :=
+  [("name", YStr (s_name s))]
+  ++ (match s_kind s with
+      | KShallow => ("type", YStr "shallow history") :: opt_field "memory" (s_memory s)
+      | KDeep => ("type", YStr "deep history") :: opt_field "memory" (s_memory s)
+      | KFinal => [("type", YStr "final")]
+      | _ => []
+      end)
+  ++ opt_field "on entry" (s_on_entry s) ++ opt_field "on exit" (s_on_exit s)
+  ++ (match s_kind s with KCompound => opt_field "initial" (s_initial s) | _ => [] end)
+  ++ export_contract (s_pre s) (s_post s) (s_inv s)
+  ++ trseg c s ++ kidseg s kids.
+
+Lemma export_state_S : forall f c n,
+  export_state (S f) c n =
+  match state_for c n with
+  | None => YNull
+  | Some s => YMap (efields c s (map (export_state f c) (children_for c (s_name s))))
+  end.
+Proof. intros f c n. cbn [export_state]. destruct (state_for c n) as [s|]; [|reflexivity]. unfold efields, trseg, kidseg. destruct (s_kind s); reflexivity. Qed.
+
+Lemma ylookup_trseg : forall k c s, k <> "transitions" -> ylookup k (trseg c s) = None.
+Proof.
+  intros k c s Hk. unfold trseg. destruct (owns_transitions (s_kind s)); [|reflexivity].
+  destruct (transitions_from c (s_name s)); [reflexivity|].
+  cbn [ylookup]. apply seqb_neq in Hk. rewrite Hk. reflexivity.
+Qed.
+
+Ltac ylk := repeat (progress (rewrite ?ylookup_app, ?ylookup_opt_field; cbn [ylookup]; lit; cbn iota)).
+
+Lemma get_name_efields : forall c s kids, get_str "name" (efields c s kids) = Some (s_name s).
+Proof. intros. unfold get_str, efields. ylk. reflexivity. Qed.
+
+
+Ltac yside := rewrite ?ylookup_export_contract, ?ylookup_trseg by discriminate.
+
+Lemma get_entry_efields : forall c s kids, get_str "on entry" (efields c s kids) = keep_opt (s_on_entry s).
+Proof.
+  intros. unfold get_str, efields, kidseg.
+  destruct (s_kind s); ylk; yside; destruct (keep_opt (s_on_entry s)); reflexivity.
+Qed.
+
+Lemma get_exit_efields : forall c s kids, get_str "on exit" (efields c s kids) = keep_opt (s_on_exit s).
+Proof.
+  intros. unfold get_str, efields, kidseg.
+  destruct (s_kind s); ylk; yside; destruct (keep_opt (s_on_exit s)); reflexivity.
+Qed.
+
+
+Lemma contract_list_efields : forall c s kids,
+  contract_list (efields c s kids) = contract_items (s_pre s) (s_post s) (s_inv s).
+Proof.
+  intros. unfold contract_list, efields, kidseg.
+  destruct (s_kind s); ylk; yside; rewrite <- contract_list_export;
+    destruct (ylookup "contract" (export_contract (s_pre s) (s_post s) (s_inv s))); reflexivity.
+Qed.
+
+Lemma type_efields : forall c s kids,
+  ylookup "type" (efields c s kids) =
+  match s_kind s with
+  | KFinal => Some (YStr "final") | KShallow => Some (YStr "shallow history")
+  | KDeep => Some (YStr "deep history") | _ => None
+  end.
+Proof.
+  intros. unfold efields, kidseg.
+  destruct (s_kind s); ylk; yside; try reflexivity;
+    destruct (keep_opt (s_on_entry s)), (keep_opt (s_on_exit s)); cbn; try reflexivity;
+    destruct (keep_opt (s_initial s)); reflexivity.
+Qed.
+
+Lemma memory_efields : forall c s kids, is_history (s_kind s) = true ->
+  get_str "memory" (efields c s kids) = keep_opt (s_memory s).
+Proof.
+  intros c s kids Hh. unfold get_str, efields, kidseg.
+  destruct (s_kind s); try discriminate; ylk; yside;
+    destruct (keep_opt (s_memory s)); try reflexivity;
+    destruct (keep_opt (s_on_entry s)), (keep_opt (s_on_exit s)); reflexivity.
+Qed.
+
+Lemma initial_efields : forall c s kids, s_kind s = KCompound ->
+  get_str "initial" (efields c s kids) = keep_opt (s_initial s).
+Proof.
+  intros c s kids Hk. unfold get_str, efields, kidseg. rewrite Hk. ylk. yside.
+  destruct (keep_opt (s_initial s)); try reflexivity;
+    destruct (keep_opt (s_on_entry s)), (keep_opt (s_on_exit s)); reflexivity.
+Qed.
+
+Lemma states_efields : forall c s kids,
+  ylist_of "states" (efields c s kids) = match s_kind s with KCompound => kids | _ => [] end.
+Proof.
+  intros. unfold ylist_of, efields, kidseg.
+  destruct (s_kind s); ylk; yside;
+    destruct (keep_opt (s_on_entry s)), (keep_opt (s_on_exit s)); cbn; try reflexivity;
+    destruct (keep_opt (s_initial s)); try reflexivity; destruct (keep_opt (s_memory s)); reflexivity.
+Qed.
+
+Lemma parallel_efields : forall c s kids,
+  ylist_of "parallel states" (efields c s kids) = match s_kind s with KOrthogonal => kids | _ => [] end.
+Proof.
+  intros. unfold ylist_of, efields, kidseg.
+  destruct (s_kind s); ylk; yside;
+    destruct (keep_opt (s_on_entry s)), (keep_opt (s_on_exit s)); cbn; try reflexivity;
+    destruct (keep_opt (s_initial s)); try reflexivity; destruct (keep_opt (s_memory s)); reflexivity.
+Qed.
+
+Lemma transitions_efields : forall c s kids,
+  ylist_of "transitions" (efields c s kids) =
+  if owns_transitions (s_kind s) then map export_transition (transitions_from c (s_name s)) else [].
+Proof.
+  intros. unfold ylist_of, efields, kidseg.
+  assert (Ht : match ylookup "transitions" (trseg c s) with Some (YList l) => l | _ => [] end =
+               if owns_transitions (s_kind s) then map export_transition (transitions_from c (s_name s)) else []).
+  { unfold trseg. destruct (owns_transitions (s_kind s)); [|reflexivity].
+    destruct (transitions_from c (s_name s)); reflexivity. }
+  rewrite <- Ht.
+  destruct (s_kind s); ylk; yside;
+    destruct (keep_opt (s_on_entry s)), (keep_opt (s_on_exit s)); cbn;
+    try (destruct (ylookup "transitions" (trseg c s)); reflexivity);
+    destruct (keep_opt (s_initial s)); try (destruct (ylookup "transitions" (trseg c s)); reflexivity);
+    destruct (keep_opt (s_memory s)); destruct (ylookup "transitions" (trseg c s)); reflexivity.
+Qed.
+
+Definition state_codes_ok (s : state) : Prop := codes_ok (s_pre s) /\ codes_ok (s_post s) /\ codes_ok (s_inv s).
+
+(* C11, one state: what _import_state_from_dict makes of an exported state *)
+Lemma import_export_state : forall c s kids,
+  state_codes_ok s -> (is_composite (s_kind s) = true -> kids <> []) ->
+  import_state (efields c s kids) = Some (strip_state s).
+Proof.
+  intros c s kids [H1 [H2 H3]] Hkids. rewrite import_state_eq. unfold import_state'.
+  rewrite get_name_efields.
+  assert (Hk : state_kind (efields c s kids) = Some (s_kind s)).
+  { unfold state_kind. rewrite type_efields, states_efields, parallel_efields.
+    destruct (s_kind s) eqn:Ek; try reflexivity; destruct kids; try reflexivity; exfalso; apply Hkids; reflexivity. }
+  rewrite Hk, contract_list_efields, (import_contract_items _ _ _ [] [] [] H1 H2 H3). cbn [app].
+  rewrite get_entry_efields, get_exit_efields, !strip_opt_keep. unfold strip_state.
+  f_equal. f_equal.
+  - destruct (s_kind s) eqn:Ek; try reflexivity. apply initial_efields. exact Ek.
+  - destruct (is_history (s_kind s)) eqn:Eh; [|reflexivity]. apply memory_efields. exact Eh.
+Qed.
+
+(* ---- the schema accepts an exported document and leaves it unchanged ---- *)
+Lemma keys_within_app : forall a b K, keys_within (a ++ b) K = keys_within a K && keys_within b K.
+Proof. intros a b K. unfold keys_within. apply forallb_app. Qed.
+
+Lemma keys_within_opt_field : forall k o K, mem k K = true -> keys_within (opt_field k o) K = true.
+Proof.
+  intros k o K Hk. unfold opt_field. destruct o as [s|]; [|reflexivity].
+  destruct (nonempty s); [|reflexivity]. cbn. rewrite Hk. reflexivity.
+Qed.
+
+Lemma keys_within_export_contract : forall a b c K,
+  mem "contract" K = true -> keys_within (export_contract a b c) K = true.
+Proof.
+  intros a b c K Hk. destruct (export_contract_cases a b c) as [[_ [_ [_ ->]]]| ->]; [reflexivity|].
+  cbn. rewrite Hk. reflexivity.
+Qed.
+
+Lemma map_opt_app : forall {A B} (g : A -> option B) a b x y,
+  map_opt g a = Some x -> map_opt g b = Some y -> map_opt g (a ++ b) = Some (x ++ y).
+Proof.
+  intros A B g a; induction a as [|e a IH]; intros b x y Ha Hb; cbn [map_opt app] in *.
+  - inv Ha. exact Hb.
+  - destruct (g e) as [e'|]; [|discriminate]. destruct (map_opt g a) as [a'|]; [|discriminate]. inv Ha.
+    rewrite (IH b a' y eq_refl Hb). reflexivity.
+Qed.
+
+Lemma map_opt_id : forall {A} (g : A -> option A) l, (forall x, In x l -> g x = Some x) -> map_opt g l = Some l.
+Proof.
+  intros A g l; induction l as [|x l IH]; intros H; [reflexivity|]. cbn [map_opt].
+  rewrite (H x (or_introl eq_refl)), IH; [reflexivity|]. intros y Hy. apply H. right; exact Hy.
+Qed.
+
+Lemma map_opt_id_app : forall {A} (g : A -> option A) a b,
+  map_opt g a = Some a -> map_opt g b = Some b -> map_opt g (a ++ b) = Some (a ++ b).
+Proof. intros. apply map_opt_app; assumption. Qed.
+
+Lemma schema_contracts_items : forall a b c,
+  schema_contracts (YList (contract_items a b c)) = Some (YList (contract_items a b c)).
+Proof.
+  intros a b c. unfold schema_contracts. rewrite map_opt_id; [reflexivity|].
+  intros x Hx. unfold contract_items in Hx. rewrite !in_app_iff, !in_map_iff in Hx.
+  destruct Hx as [[y [<- _]]|[[y [<- _]]|[y [<- _]]]]; reflexivity.
+Qed.
+
+Lemma fix_opt_field_v_str : forall (g : string * ydata -> option (string * ydata)) k o,
+  (forall v, g (k, YStr v) = Some (k, YStr v)) -> map_opt g (opt_field k o) = Some (opt_field k o).
+Proof.
+  intros g k o Hg. unfold opt_field. destruct o as [s|]; [|reflexivity].
+  destruct (nonempty s); [|reflexivity]. cbn [map_opt]. rewrite Hg. reflexivity.
+Qed.
+
+Lemma fix_export_contract : forall (g : string * ydata -> option (string * ydata)) a b c,
+  (forall v, g ("contract", v) = option_map (fun x => ("contract", x)) (schema_contracts v)) ->
+  map_opt g (export_contract a b c) = Some (export_contract a b c).
+Proof.
+  intros g a b c Hg. destruct (export_contract_cases a b c) as [[_ [_ [_ ->]]]| ->]; [reflexivity|].
+  cbn [map_opt]. rewrite Hg, schema_contracts_items. reflexivity.
+Qed.
+
+Lemma schema_export_transition : forall t, schema_transition (export_transition t) = Some (export_transition t).
+Proof.
+  intros t. rewrite export_transition_eq, schema_transition_map.
+  assert (Hk : keys_within (tfields t) transition_keys = true).
+  { unfold tfields. rewrite !keys_within_app, !keys_within_opt_field by reflexivity.
+    rewrite keys_within_export_contract by reflexivity. unfold export_priority.
+    destruct (Z.eqb (t_priority t) 0); reflexivity. }
+  rewrite Hk. unfold tfields.
+  repeat (rewrite map_opt_id_app; [reflexivity| |]); try (apply fix_opt_field_v_str; intros v; reflexivity).
+  - apply map_opt_id. intros [k v] Hin. pose proof (use_priority_export _ _ _ Hin) as Hu.
+    unfold export_priority in Hin. destruct (Z.eqb (t_priority t) 0); [destruct Hin|].
+    destruct Hin as [E|[]]. inv E. unfold transition_field. cbn [fst snd]. lit. rewrite Hu. reflexivity.
+  - apply fix_export_contract. intros v. reflexivity.
+Qed.
+
+Lemma keys_within_cons : forall k v l K, keys_within ((k, v) :: l) K = mem k K && keys_within l K.
+Proof. reflexivity. Qed.
+
+Lemma keys_within_trseg : forall c s, keys_within (trseg c s) state_keys = true.
+Proof.
+  intros c s. unfold trseg. destruct (owns_transitions (s_kind s)); [|reflexivity].
+  destruct (transitions_from c (s_name s)); reflexivity.
+Qed.
+
+Lemma schema_efields : forall f c s kids,
+  (forall x, In x kids -> schema_state f x = Some x) ->
+  schema_state (S f) (YMap (efields c s kids)) = Some (YMap (efields c s kids)).
+Proof.
+  intros f c s kids Hkids. rewrite schema_state_S.
+  assert (Hk : keys_within (efields c s kids) state_keys = true).
+  { unfold efields, kidseg.
+    destruct (s_kind s);
+      repeat (progress (rewrite ?keys_within_app, ?keys_within_cons, ?keys_within_trseg;
+                        rewrite ?keys_within_opt_field, ?keys_within_export_contract by reflexivity));
+      reflexivity. }
+  rewrite Hk. unfold get_str in *.
+  assert (Hn : ylookup "name" (efields c s kids) = Some (YStr (s_name s))) by reflexivity.
+  rewrite Hn. cbn [andb option_map]. unfold efields.
+  repeat (rewrite map_opt_id_app; [reflexivity| |]); try (apply fix_opt_field_v_str; intros v; reflexivity).
+  - reflexivity.
+  - destruct (s_kind s); try reflexivity.
+    + cbn [map_opt]. change (state_field f ("type", YStr "shallow history")) with (Some ("type", YStr "shallow history")).
+      rewrite fix_opt_field_v_str by (intros v; reflexivity). reflexivity.
+    + cbn [map_opt]. change (state_field f ("type", YStr "deep history")) with (Some ("type", YStr "deep history")).
+      rewrite fix_opt_field_v_str by (intros v; reflexivity). reflexivity.
+  - destruct (s_kind s); try reflexivity. apply fix_opt_field_v_str; intros v; reflexivity.
+  - apply fix_export_contract. intros v. reflexivity.
+  - unfold trseg. destruct (owns_transitions (s_kind s)); [|reflexivity].
+    destruct (transitions_from c (s_name s)) as [|t ts]; [reflexivity|].
+    cbn [map_opt]. unfold state_field. cbn [fst snd]. lit. cbn iota.
+    rewrite map_opt_id; [reflexivity|]. intros x Hx. apply in_map_iff in Hx. destruct Hx as [t' [<- _]].
+    apply schema_export_transition.
+  - unfold kidseg. destruct (s_kind s); try reflexivity;
+      cbn [map_opt]; unfold state_field; cbn [fst snd]; lit; cbn [orb]; cbn iota;
+      rewrite (map_opt_id _ _ Hkids); reflexivity.
+Qed.
+
+(* ---- the exported tree: fuel S (number of states) reaches every state ---- *)
+Inductive subtree (c : chart) : nat -> name -> Prop :=
+| st_node : forall f n s, state_for c n = Some s -> s_name s = n ->
+    (forall ch, In ch (children_for c n) -> subtree c f ch) -> subtree c (S f) n.
+
+Lemma anc_has_state : forall c, sound c -> forall x a, anc c x a -> has_state c a = true.
+Proof.
+  intros c HS x a H; induction H as [x a Hp|x q a Hp Ha IH]; [|exact IH].
+  destruct (sd_pc c HS _ _ Hp) as [H _]. apply H. reflexivity.
+Qed.
+
+Lemma subtree_of_sound : forall c, sound c -> forall f path n,
+  f + length path = S (length (c_states c)) -> NoDup path -> (forall a, In a path -> anc c n a) ->
+  has_state c n = true -> subtree c f n.
+Proof.
+  intros c HS. induction f as [|f IH]; intros path n Hlen Hnd Hanc Hn.
+  - exfalso. assert (Hincl : incl path (map fst (c_states c))).
+    { intros a Ha. apply has_state_In. apply (anc_has_state c HS n a). apply Hanc; exact Ha. }
+    pose proof (NoDup_incl_length Hnd Hincl) as Hl. rewrite map_length in Hl. cbn in Hlen. lia.
+  - apply has_state_Some in Hn. destruct Hn as [s Hs].
+    apply (st_node c f n s); [exact Hs|apply (sd_keyname c HS _ _ Hs)|].
+    intros ch Hch. pose proof (sound_child_parent c HS _ _ Hch) as Hp.
+    apply (IH (n :: path)).
+    + cbn [length]. lia.
+    + constructor; [|exact Hnd]. intros Hin. apply (sound_anc_irrefl c HS n). apply Hanc; exact Hin.
+    + intros a [<-|Ha]; [apply anc_parent; exact Hp|]. eapply anc_step; [exact Hp|apply Hanc; exact Ha].
+    + apply (sd_pkeys c HS). congruence.
+Qed.
+
+Definition enode (f : nat) (c : chart) (n : name) : list (string * ydata) :=
+  match export_state f c n with YMap m => m | _ => [] end.
+
+Lemma export_state_subtree : forall c f n, subtree c f n -> export_state f c n = YMap (enode f c n).
+Proof.
+  intros c f n H. inversion H as [f' n' s Hs Hnm Hch]; subst. unfold enode.
+  rewrite export_state_S, Hs. reflexivity.
+Qed.
+
+Lemma enode_S : forall c f n s, state_for c n = Some s -> s_name s = n ->
+  enode (S f) c n = efields c s (map (export_state f c) (children_for c n)).
+Proof. intros c f n s Hs Hnm. unfold enode. rewrite export_state_S, Hs, Hnm. reflexivity. Qed.
+
+(* ---- what the loop of import_from_dict does on an exported tree ---- *)
+Definition maps (l : list ydata) : list (list (string * ydata)) :=
+  flat_map (fun d => match d with YMap sm => [sm] | _ => [] end) l.
+
+Lemma push_subs_eq : forall nm subs acc, push_subs nm subs acc = acc ++ map (fun sm => (sm, Some nm)) (maps subs).
+Proof.
+  intros nm subs; induction subs as [|d subs IH]; intros acc.
+  - cbn. rewrite app_nil_r. reflexivity.
+  - change (push_subs nm (d :: subs) acc)
+      with (push_subs nm subs (match d with YMap sm => acc ++ [(sm, Some nm)] | _ => acc end)).
+    rewrite IH. destruct d; try reflexivity. cbn [maps flat_map app map]. rewrite <- app_assoc. reflexivity.
+Qed.
+
+Lemma push_trans_eq : forall nm ts acc, push_trans nm ts acc = acc ++ map (import_transition nm) (maps ts).
+Proof.
+  intros nm ts; induction ts as [|d ts IH]; intros acc.
+  - cbn. rewrite app_nil_r. reflexivity.
+  - change (push_trans nm (d :: ts) acc)
+      with (push_trans nm ts (match d with YMap tm => acc ++ [import_transition nm tm] | _ => acc end)).
+    rewrite IH. destruct d; try reflexivity. cbn [maps flat_map app map]. rewrite <- app_assoc. reflexivity.
+Qed.
+
+Lemma maps_export_transitions : forall ts, maps (map export_transition ts) = map tfields ts.
+Proof. induction ts as [|t ts IH]; [reflexivity|]. cbn [map maps flat_map app]. fold (maps (map export_transition ts)). rewrite IH. reflexivity. Qed.
+
+Fixpoint cdfs (c : chart) (f : nat) (n : name) (parent : option name) : list (state * option name) :=
+  match f with
+  | O => []
+  | S f' =>
+      match state_for c n with
+      | None => []
+      | Some s => (strip_state s, parent)
+                    :: flat_map (fun ch => cdfs c f' ch (Some n)) (rev (children_for c n))
+      end
+  end.
+
+Definition tl_of (c : chart) (l : list (state * option name)) : list transition :=
+  flat_map (fun e => map strip_trans (transitions_from c (s_name (fst e)))) l.
+
+Lemma tl_of_app : forall c a b, tl_of c (a ++ b) = tl_of c a ++ tl_of c b.
+Proof. intros. unfold tl_of. apply flat_map_app. Qed.
+
+(* ---- ancestors in a sound chart ---- *)
+Lemma anc_last : forall c x n, anc c x n ->
+  exists ch, lookup ch (c_parent c) = Some (Some n) /\ (x = ch \/ anc c x ch).
+Proof.
+  intros c x n H; induction H as [x a Hp|x q a Hp Ha IH].
+  - exists x. split; [exact Hp|left; reflexivity].
+  - destruct IH as [ch [H1 H2]]. exists ch. split; [exact H1|]. right.
+    destruct H2 as [->|H2]; [apply anc_parent; exact Hp|eapply anc_step; eauto].
+Qed.
+
+Lemma anc_linear : forall c x a b, anc c x a -> anc c x b -> a = b \/ anc c a b \/ anc c b a.
+Proof.
+  intros c x a b H; revert b; induction H as [x a Hp|x q a Hp Ha IH]; intros b Hb.
+  - destruct (anc_inv _ _ _ Hb) as [q' [Hq' [E|Hq'b]]]; rewrite Hp in Hq'; inv Hq'; auto.
+  - destruct (anc_inv _ _ _ Hb) as [q' [Hq' [E|Hq'b]]]; rewrite Hp in Hq'; inv Hq'.
+    + right; right. exact Ha.
+    + apply IH. exact Hq'b.
+Qed.
+
+Lemma siblings_disjoint : forall c, sound c -> forall n ch1 ch2 x,
+  lookup ch1 (c_parent c) = Some (Some n) -> lookup ch2 (c_parent c) = Some (Some n) -> ch1 <> ch2 ->
+  (x = ch1 \/ anc c x ch1) -> (x = ch2 \/ anc c x ch2) -> False.
+Proof.
+  intros c HS n ch1 ch2 x H1 H2 Hne Hx1 Hx2.
+  assert (Hno : forall a b, lookup a (c_parent c) = Some (Some n) -> lookup b (c_parent c) = Some (Some n) ->
+                 anc c a b -> False).
+  { intros a b Ha Hb Hab. destruct (anc_inv _ _ _ Hab) as [q [Hq [E|Hqb]]]; rewrite Ha in Hq; inv Hq.
+    - apply (sound_anc_irrefl c HS b). apply anc_parent. exact Hb.
+    - apply (sound_anc_irrefl c HS q). eapply anc_trans; [exact Hqb|apply anc_parent; exact Hb]. }
+  destruct Hx1 as [->|Hx1], Hx2 as [E|Hx2].
+  - congruence.
+  - apply (Hno ch1 ch2); assumption.
+  - subst x. apply (Hno ch2 ch1); assumption.
+  - destruct (anc_linear _ _ _ _ Hx1 Hx2) as [E|[H|H]]; [congruence|apply (Hno ch1 ch2)|apply (Hno ch2 ch1)]; assumption.
+Qed.
+
+Lemma map_flat_map : forall {A B C} (f : B -> C) (g : A -> list B) l,
+  map f (flat_map g l) = flat_map (fun x => map f (g x)) l.
+Proof. intros A B C f g l; induction l as [|x l IH]; [reflexivity|]. cbn [flat_map]. rewrite map_app, IH. reflexivity. Qed.
+
+Lemma NoDup_flat_map : forall {A B} (g : A -> list B) l,
+  NoDup l -> (forall x, In x l -> NoDup (g x)) ->
+  (forall x y z, In x l -> In y l -> x <> y -> In z (g x) -> In z (g y) -> False) ->
+  NoDup (flat_map g l).
+Proof.
+  intros A B g l; induction l as [|a l IH]; intros Hnd Hg Hdis; [constructor|].
+  inv Hnd. cbn [flat_map]. apply NoDup_app_intro.
+  - apply Hg. left; reflexivity.
+  - apply IH; [assumption|intros x Hx; apply Hg; right; exact Hx|].
+    intros x y z Hx Hy. apply Hdis; right; assumption.
+  - intros z Hz1 Hz2. apply in_flat_map in Hz2. destruct Hz2 as [y [Hy Hzy]].
+    apply (Hdis a y z); [left; reflexivity|right; exact Hy| |exact Hz1|exact Hzy].
+    intros ->. contradiction.
+Qed.
+
+Section Roundtrip.
+  Variable c : chart.
+  Hypothesis HS : sound c.
+  Hypothesis Hscodes : forall n s, state_for c n = Some s -> state_codes_ok s.
+  Hypothesis Htcodes : forall t, In t (c_transitions c) -> trans_codes_ok t.
+  Hypothesis Hkids : forall n s, state_for c n = Some s ->
+    (is_composite (s_kind s) = true -> children_for c n <> []) /\
+    (is_composite (s_kind s) = false -> children_for c n = []).
+
+  Lemma transitions_from_owns : forall n s, state_for c n = Some s -> owns_transitions (s_kind s) = false ->
+    transitions_from c n = [].
+  Proof.
+    intros n s Hs Ho. unfold transitions_from.
+    destruct (filter (fun t => str_eqb (t_source t) n) (c_transitions c)) as [|t l] eqn:E; [reflexivity|].
+    exfalso. assert (Hin : In t (filter (fun t => str_eqb (t_source t) n) (c_transitions c))) by (rewrite E; left; reflexivity).
+    apply filter_In in Hin. destruct Hin as [Hin Hsrc]. apply seqb_eq in Hsrc.
+    destruct (sd_trans c HS t Hin) as [[s' [H1 H2]] _]. unfold state_for in Hs. rewrite Hsrc, Hs in H1. inv H1. congruence.
+  Qed.
+
+  Lemma walk_node_step : forall f n s p stack S T fuel,
+    state_for c n = Some s -> s_name s = n ->
+    (forall ch, In ch (children_for c n) -> subtree c f ch) ->
+    import_walk (Datatypes.S fuel) (stack ++ [(enode (Datatypes.S f) c n, p)]) S T =
+    import_walk fuel (stack ++ map (fun ch => (enode f c ch, Some n)) (children_for c n))
+                (S ++ [(strip_state s, p)]) (T ++ map strip_trans (transitions_from c n)).
+  Proof.
+    intros f n s p stack S T fuel Hs Hnm Hch.
+    rewrite import_walk_S, rev_unit, (enode_S c f n s Hs Hnm).
+    destruct (Hkids n s Hs) as [Hk1 Hk2].
+    rewrite import_export_state; [|apply (Hscodes n s Hs)|].
+    2:{ intros Hc E. apply map_eq_nil in E. apply (Hk1 Hc E). }
+    rewrite rev_involutive, push_subs_eq, push_trans_eq.
+    assert (Hn' : s_name (strip_state s) = n) by exact Hnm. rewrite Hn'.
+    f_equal.
+    - f_equal. unfold subs_of. change (s_kind (strip_state s)) with (s_kind s).
+      rewrite states_efields, parallel_efields.
+      assert (Hm : maps (map (export_state f c) (children_for c n)) = map (enode f c) (children_for c n)).
+      { revert Hch. generalize (children_for c n) as l. induction l as [|ch l IH]; intros Hch; [reflexivity|].
+        cbn [map maps flat_map]. rewrite (export_state_subtree c f ch (Hch ch (or_introl eq_refl))).
+        cbn [app]. f_equal. apply IH. intros x Hx. apply Hch. right; exact Hx. }
+      destruct (s_kind s) eqn:Ek; try (rewrite (Hk2 eq_refl); reflexivity); rewrite Hm, map_map; reflexivity.
+    - f_equal. rewrite transitions_efields, Hnm.
+      destruct (owns_transitions (s_kind s)) eqn:Eo.
+      + rewrite maps_export_transitions, map_map. apply map_ext_in. intros t Ht.
+        unfold transitions_from in Ht. apply filter_In in Ht. destruct Ht as [Hin Hsrc]. apply seqb_eq in Hsrc.
+        rewrite <- Hsrc. apply import_export_transition. apply Htcodes. exact Hin.
+      + rewrite (transitions_from_owns n s Hs Eo). reflexivity.
+  Qed.
+
+  Lemma walk_export : forall f n, subtree c f n -> forall p stack S T fuel,
+    import_walk (length (cdfs c f n p) + fuel) (stack ++ [(enode f c n, p)]) S T =
+    import_walk fuel stack (S ++ cdfs c f n p) (T ++ tl_of c (cdfs c f n p)).
+  Proof.
+    induction f as [|f IH]; intros n Hsub p stack S T fuel; inversion Hsub as [f' n' s Hs Hnm Hch]; subst.
+    assert (Hlist : forall chs, (forall ch, In ch chs -> subtree c f ch) -> forall q stack S T fuel,
+      import_walk (length (flat_map (fun ch => cdfs c f ch q) (rev chs)) + fuel)
+                  (stack ++ map (fun ch => (enode f c ch, q)) chs) S T =
+      import_walk fuel stack (S ++ flat_map (fun ch => cdfs c f ch q) (rev chs))
+                  (T ++ tl_of c (flat_map (fun ch => cdfs c f ch q) (rev chs)))).
+    { induction chs as [|x chs IHl] using rev_ind; intros Hall q stack0 S0 T0 fuel0.
+      - cbn. rewrite !app_nil_r. reflexivity.
+      - rewrite rev_unit, map_app. cbn [map flat_map]. rewrite app_assoc, app_length, <- Nat.add_assoc.
+        assert (Hx : subtree c f x) by (apply Hall; apply in_or_app; right; left; reflexivity).
+        rewrite (IH x Hx).
+        rewrite IHl; [|intros ch Hc; apply Hall; apply in_or_app; left; exact Hc].
+        rewrite tl_of_app, !app_assoc. reflexivity. }
+    cbn [cdfs]. rewrite Hs. cbn [length Nat.add].
+    rewrite (walk_node_step f _ s p stack S T _ Hs eq_refl Hch).
+    rewrite (Hlist _ Hch). cbn [tl_of flat_map fst]. fold (tl_of c (flat_map (fun ch => cdfs c f ch (Some (s_name s))) (rev (children_for c (s_name s))))).
+    change (s_name (strip_state s)) with (s_name s).
+    rewrite <- !app_assoc. reflexivity.
+  Qed.
+
+  (* ---- which states the loop registers ---- *)
+  Lemma cdfs_In : forall f n, subtree c f n -> forall p st q, lookup n (c_parent c) = Some p ->
+    (In (st, q) (cdfs c f n p) <->
+     exists x s, (x = n \/ anc c x n) /\ state_for c x = Some s /\ st = strip_state s /\
+                 lookup x (c_parent c) = Some q).
+  Proof.
+    induction f as [|f IH]; intros n Hsub p st q Hp; inversion Hsub as [f' n' s Hs Hnm Hch]; subst.
+    cbn [cdfs]. rewrite Hs. cbn [In]. rewrite in_flat_map. split.
+    - intros [E|[ch [Hin Hc]]].
+      + inv E. exists (s_name s), s. auto.
+      + apply in_rev in Hin. pose proof (sound_child_parent c HS _ _ Hin) as Hcp.
+        apply (IH ch (Hch ch Hin) (Some (s_name s)) st q Hcp) in Hc.
+        destruct Hc as [x [sx [Hx H]]]. exists x, sx. split; [|exact H]. right.
+        destruct Hx as [->|Hx]; [apply anc_parent; exact Hcp|eapply anc_trans; [exact Hx|apply anc_parent; exact Hcp]].
+    - intros [x [sx [[->|Hx] [H1 [H2 H3]]]]].
+      + left. rewrite Hs in H1. inv H1. rewrite Hp in H3. inv H3. reflexivity.
+      + right. destruct (anc_last _ _ _ Hx) as [ch [Hcp Hxc]].
+        pose proof (sound_parent_child c HS _ _ Hcp) as Hin.
+        exists ch. split; [apply (proj1 (in_rev _ _)); exact Hin|].
+        apply (IH ch (Hch ch Hin) (Some (s_name s)) st q Hcp). exists x, sx. auto.
+  Qed.
+
+  Lemma cdfs_names : forall f n, subtree c f n -> forall p x,
+    In x (snames (cdfs c f n p)) -> x = n \/ anc c x n.
+  Proof.
+    induction f as [|f IH]; intros n Hsub p x Hin; inversion Hsub as [f' n' s Hs Hnm Hch]; subst.
+    cbn [cdfs] in Hin. rewrite Hs in Hin. unfold snames in Hin. cbn [map fst] in Hin.
+    destruct Hin as [E|Hin]; [left; symmetry; exact E|]. right.
+    rewrite map_flat_map in Hin. apply in_flat_map in Hin. destruct Hin as [ch [Hc Hin]].
+    apply in_rev in Hc. pose proof (sound_child_parent c HS _ _ Hc) as Hcp.
+    destruct (IH ch (Hch ch Hc) (Some (s_name s)) x Hin) as [->|Hx];
+      [apply anc_parent; exact Hcp|eapply anc_trans; [exact Hx|apply anc_parent; exact Hcp]].
+  Qed.
+
+  Lemma cdfs_NoDup : forall f n, subtree c f n -> forall p, NoDup (snames (cdfs c f n p)).
+  Proof.
+    induction f as [|f IH]; intros n Hsub p; inversion Hsub as [f' n' s Hs Hnm Hch]; subst.
+    cbn [cdfs]. rewrite Hs. unfold snames. cbn [map fst]. change (s_name (strip_state s)) with (s_name s).
+    rewrite map_flat_map. constructor.
+    - intros Hin. apply in_flat_map in Hin. destruct Hin as [ch [Hc Hin]]. apply in_rev in Hc.
+      pose proof (sound_child_parent c HS _ _ Hc) as Hcp.
+      destruct (cdfs_names f ch (Hch ch Hc) _ _ Hin) as [E|Ha].
+      + apply (sound_anc_irrefl c HS ch). rewrite <- E at 2. apply anc_parent. exact Hcp.
+      + apply (sound_anc_irrefl c HS ch). eapply anc_trans; [apply anc_parent; exact Hcp|exact Ha].
+    - apply NoDup_flat_map.
+      + apply NoDup_rev. apply (sound_children_for_NoDup c HS).
+      + intros ch Hc. apply in_rev in Hc. apply (IH ch (Hch ch Hc)).
+      + intros ch1 ch2 z H1 H2 Hne Hz1 Hz2. apply in_rev in H1. apply in_rev in H2.
+        apply (siblings_disjoint c HS (s_name s) ch1 ch2 z);
+          [apply (sound_child_parent c HS); exact H1|apply (sound_child_parent c HS); exact H2|exact Hne| |].
+        * apply (cdfs_names f ch1 (Hch ch1 H1) _ _ Hz1).
+        * apply (cdfs_names f ch2 (Hch ch2 H2) _ _ Hz2).
+  Qed.
+End Roundtrip.
+
+
+(* ---- list facts for the comparison made by roundtrip_ok ---- *)
+Lemma list_eqb_refl : forall {A} (eqb : A -> A -> bool), (forall a, eqb a a = true) ->
+  forall l, list_eqb eqb l l = true.
+Proof. intros A eqb H; induction l as [|x l IH]; [reflexivity|]. cbn. rewrite H, IH. reflexivity. Qed.
+
+Lemma ostr_eqb_refl : forall a, ostr_eqb a a = true.
+Proof. intros a. apply ostr_eqb_eq. reflexivity. Qed.
+
+Lemma strs_eqb_refl : forall a, strs_eqb a a = true.
+Proof. intros a. apply strs_eqb_eq. reflexivity. Qed.
+
+Lemma kind_eqb_refl : forall k, kind_eqb k k = true.
+Proof. destruct k; reflexivity. Qed.
+
+Lemma state_eqb_refl : forall s, state_eqb s s = true.
+Proof.
+  intros s. unfold state_eqb.
+  rewrite seqb_refl, kind_eqb_refl, !ostr_eqb_refl, !strs_eqb_refl. reflexivity.
+Qed.
+
+Lemma trans_eqb_refl : forall t, trans_eqb t t = true.
+Proof.
+  intros t. unfold trans_eqb.
+  rewrite seqb_refl, !ostr_eqb_refl, !strs_eqb_refl, Z.eqb_refl. reflexivity.
+Qed.
+
+Lemma sorted_perm_eq_on : forall {A} (R : A -> A -> Prop) l1 l2,
+  (forall a b, In a l1 -> In b l1 -> R a b -> R b a -> a = b) ->
+  StronglySorted R l1 -> StronglySorted R l2 -> Permutation l1 l2 -> l1 = l2.
+Proof.
+  intros A R; induction l1 as [|a l1 IH]; intros l2 Hanti H1 H2 HP.
+  - apply Permutation_nil in HP. auto.
+  - destruct l2 as [|b l2]; [apply Permutation_sym, Permutation_nil in HP; discriminate|].
+    inversion H1 as [|? ? H1a H1b]; inversion H2 as [|? ? H2a H2b]; subst.
+    rewrite Forall_forall in H1b, H2b.
+    assert (Ha : In a (b :: l2)) by (eapply Permutation_in; [exact HP|left; reflexivity]).
+    assert (Hb : In b (a :: l1)) by (eapply Permutation_in; [apply Permutation_sym; exact HP|left; reflexivity]).
+    assert (E : a = b).
+    { destruct Ha as [Ha|Ha]; [auto|]. destruct Hb as [Hb'|Hb']; [auto|].
+      apply Hanti; [left; reflexivity|right; exact Hb'|auto|auto]. }
+    subst b. f_equal. apply IH; auto.
+    + intros x y Hx Hy. apply Hanti; right; assumption.
+    + eapply Permutation_cons_inv; exact HP.
+Qed.
+
+Lemma NoDup_keys_inj : forall {V} (l : list (name * V)) a b,
+  NoDup (map fst l) -> In a l -> In b l -> fst a = fst b -> a = b.
+Proof.
+  intros V l [ka va] [kb vb] Hnd Ha Hb E. cbn in E. subst kb.
+  pose proof (In_lookup _ _ _ Hnd Ha) as H1. pose proof (In_lookup _ _ _ Hnd Hb) as H2. congruence.
+Qed.
+
+Lemma NoDup_keys_pairs : forall {V} (l : list (name * V)), NoDup (map fst l) -> NoDup l.
+Proof.
+  intros V l; induction l as [|[k v] l IH]; intros H; [constructor|]. inv H. constructor; [|auto].
+  intros Hin. apply H2. change k with (fst (k, v)). apply in_map. exact Hin.
+Qed.
+
+Lemma by_key_eq : forall {V} (l1 l2 : list (name * V)),
+  NoDup (map fst l1) -> NoDup (map fst l2) -> (forall k, lookup k l1 = lookup k l2) -> by_key l1 = by_key l2.
+Proof.
+  intros V l1 l2 H1 H2 Hl. unfold by_key.
+  set (leb := fun a b : name * V => str_leb (fst a) (fst b)).
+  assert (Htot : forall a b, leb a b = true \/ leb b a = true) by (intros a b; apply str_leb_total).
+  assert (Htr : forall a b c, leb a b = true -> leb b c = true -> leb a c = true)
+    by (intros a b c; apply str_leb_trans).
+  assert (HP : Permutation l1 l2).
+  { apply NoDup_Permutation; [apply NoDup_keys_pairs; exact H1|apply NoDup_keys_pairs; exact H2|].
+    intros [k v]. split; intros Hin.
+    - apply lookup_In. rewrite <- Hl. apply In_lookup; assumption.
+    - apply lookup_In. rewrite Hl. apply In_lookup; assumption. }
+  apply (sorted_perm_eq_on (lebP leb)).
+  - intros a b Ha Hb Hab Hba. apply (proj1 (sort_In _ a l1)) in Ha. apply (proj1 (sort_In _ b l1)) in Hb.
+    apply (NoDup_keys_inj l1); auto. apply str_leb_antisym; assumption.
+  - apply sort_strongly_sorted; assumption.
+  - apply sort_strongly_sorted; assumption.
+  - eapply Permutation_trans; [apply sort_perm|]. eapply Permutation_trans; [exact HP|].
+    apply Permutation_sym, sort_perm.
+Qed.
+
+Lemma sort_names_perm_eq : forall l1 l2, Permutation l1 l2 -> sort_names l1 = sort_names l2.
+Proof. intros. apply (sort_perm_eq str_leb str_leb_total str_leb_trans str_leb_antisym). assumption. Qed.
+
+(* transitions grouped by source *)
+Definition from_src (n : name) (t : transition) : bool := str_eqb (t_source t) n.
+
+Lemma filter_src_twice : forall n k l,
+  filter (from_src k) (filter (from_src n) l) = if str_eqb n k then filter (from_src k) l else [].
+Proof.
+  intros n k l; induction l as [|t l IH]; cbn [filter]; [destruct (str_eqb n k); reflexivity|].
+  destruct (from_src n t) eqn:En; cbn [filter]; destruct (from_src k t) eqn:Ek; rewrite IH;
+    unfold from_src in En, Ek; destruct (seqbP n k) as [E|E]; try reflexivity; exfalso;
+    repeat match goal with
+           | H : str_eqb _ _ = true |- _ => apply seqb_eq in H
+           | H : str_eqb _ _ = false |- _ => apply seqb_neq in H
+           end; congruence.
+Qed.
+
+Lemma filter_flat_map_notin : forall k ns l, ~ In k ns ->
+  filter (from_src k) (flat_map (fun n => filter (from_src n) l) ns) = [].
+Proof.
+  intros k ns l; induction ns as [|n ns IH]; intros Hk; [reflexivity|].
+  cbn [flat_map]. rewrite filter_app, filter_src_twice, IH; [|intros H; apply Hk; right; exact H].
+  destruct (seqbP n k) as [->|_]; [exfalso; apply Hk; left; reflexivity|reflexivity].
+Qed.
+
+Lemma filter_flat_map_key : forall k ns l, NoDup ns -> In k ns ->
+  filter (from_src k) (flat_map (fun n => filter (from_src n) l) ns) = filter (from_src k) l.
+Proof.
+  intros k ns l; induction ns as [|n ns IH]; intros Hnd Hk; [destruct Hk|].
+  inv Hnd. cbn [flat_map]. rewrite filter_app, filter_src_twice.
+  destruct (seqbP n k) as [->|Hn].
+  - rewrite filter_flat_map_notin by assumption. apply app_nil_r.
+  - destruct Hk as [E|Hk]; [congruence|]. cbn [app]. apply IH; assumption.
+Qed.
+
+Lemma length_flat_map_src : forall ns l, NoDup ns -> (forall t, In t l -> In (t_source t) ns) ->
+  length (flat_map (fun n => filter (from_src n) l) ns) = length l.
+Proof.
+  intros ns l Hnd; induction l as [|t l IH]; intros Hsrc.
+  - clear Hsrc Hnd. induction ns as [|n ns IHn]; [reflexivity|]. cbn [flat_map filter app]. exact IHn.
+  - assert (Hstep : forall ms, NoDup ms ->
+      length (flat_map (fun n => filter (from_src n) (t :: l)) ms) =
+      length (flat_map (fun n => filter (from_src n) l) ms) + count_occ string_dec ms (t_source t)).
+    { induction ms as [|n ms IHm]; intros Hm; [reflexivity|]. inv Hm.
+      cbn [flat_map count_occ]. rewrite !app_length, (IHm H2). cbn [filter]. unfold from_src at 1.
+      destruct (seqbP (t_source t) n) as [E|E]; destruct (string_dec n (t_source t)); try congruence; cbn [length]; lia. }
+    rewrite (Hstep ns Hnd), IH; [|intros t' Ht'; apply Hsrc; right; exact Ht'].
+    rewrite (NoDup_count_one ns (t_source t) Hnd (Hsrc t (or_introl eq_refl))). cbn [length]. lia.
+Qed.
+
+Lemma filter_map_comm : forall {A B} (f : A -> B) (p : B -> bool) l,
+  filter p (map f l) = map f (filter (fun x => p (f x)) l).
+Proof.
+  intros A B f p l; induction l as [|x l IH]; [reflexivity|]. cbn [map filter].
+  destruct (p (f x)); cbn [map]; rewrite IH; reflexivity.
+Qed.
+
+Lemma flat_map_map : forall {A B C} (f : A -> B) (g : B -> list C) l,
+  flat_map g (map f l) = flat_map (fun x => g (f x)) l.
+Proof. intros A B C f g l; induction l as [|x l IH]; [reflexivity|]. cbn [map flat_map]. rewrite IH. reflexivity. Qed.
+
+Lemma keep_opt_Some : forall o x, keep_opt o = Some x -> o = Some x.
+Proof. intros [s|] x H; cbn in H; [|discriminate]. destruct (nonempty s); [inv H; reflexivity|discriminate]. Qed.
+
+Lemma truthy_keep_opt : forall o, truthy (keep_opt o) = truthy o.
+Proof. intros [[|a s]|]; reflexivity. Qed.
+
+
+(* ---- fuel of the loop, once more ---- *)
+Lemma import_walk_mono : forall f stack S T r k,
+  import_walk f stack S T = Some r -> import_walk (f + k) stack S T = Some r.
+Proof.
+  induction f as [|f IH]; intros stack S T r k H; [discriminate|].
+  cbn [Nat.add]. rewrite import_walk_S in *. destruct (rev stack) as [|[m p] rr]; [exact H|].
+  destruct (import_state m) as [st|]; [|discriminate]. apply IH. exact H.
+Qed.
+
+Lemma import_walk_any_fuel : forall f root r,
+  import_walk f [(root, None)] [] [] = Some r ->
+  import_walk (S (count_nodes (YMap root))) [(root, None)] [] [] = Some r.
+Proof.
+  intros f root r H. set (F := S (count_nodes (YMap root))).
+  assert (Hsz : stack_size [(root, None)] < F).
+  { rewrite stack_size_cons. cbn [fst]. change (stack_size []) with 0. unfold F. lia. }
+  destruct (Nat.le_gt_cases f F) as [Hle|Hgt].
+  - replace F with (f + (F - f)) by lia. apply import_walk_mono. exact H.
+  - rewrite (import_walk_fuel F _ _ _ f); [exact H|exact Hsz|lia].
+Qed.
+
+(* ---- when add_state cannot raise StatechartError ---- *)
+Lemma add_state_register_or : forall cur st q,
+  has_state cur (s_name st) = false ->
+  (q = None /\ truthy (root cur) = None /\ is_history (s_kind st) = false) \/
+  (exists pn ps, q = Some pn /\ pn <> "" /\ state_for cur pn = Some ps /\ is_composite (s_kind ps) = true /\
+                 (is_history (s_kind st) = true -> s_kind ps = KCompound)) ->
+  snd (add_state cur st q) = EOk \/ snd (add_state cur st q) = EKeyError.
+Proof.
+  intros cur st q Hfresh H. unfold add_state. rewrite Hfresh.
+  destruct H as [[-> [Hroot Hh]]|[pn [ps [-> [Hpn [Hps [Hcomp Hhc]]]]]]].
+  - change (no_parent None) with true. cbv iota. rewrite Hroot, Hh. cbv zeta.
+    match goal with |- context [match ?x with Some _ => _ | None => _ end] => destruct x end; cbn; auto.
+  - assert (Hnp : no_parent (Some pn) = false) by (destruct pn; [congruence|reflexivity]).
+    rewrite Hnp, Hps, Hcomp. cbn [negb].
+    assert (Hc : is_history (s_kind st) && negb (kind_eqb (s_kind ps) KCompound) = false).
+    { destruct (is_history (s_kind st)); [|reflexivity]. rewrite (Hhc eq_refl). reflexivity. }
+    rewrite Hc. cbv zeta.
+    match goal with |- context [match ?x with Some _ => _ | None => _ end] => destruct x end; cbn; auto.
+Qed.
+
+Lemma add_transitions_succeeds : forall l cur,
+  (forall t, In t l ->
+     (exists s, lookup (t_source t) (c_states cur) = Some s /\ owns_transitions (s_kind s) = true) /\
+     (forall tg, t_target t = Some tg -> has_state cur tg = true)) ->
+  exists c', add_transitions cur l = Some c'.
+Proof.
+  induction l as [|t l IH]; intros cur H; [exists cur; reflexivity|].
+  cbn [add_transitions].
+  destruct (H t (or_introl eq_refl)) as [[s [Hs Ho]] Htg].
+  assert (E : add_transition cur t = (with_transitions cur (c_transitions cur ++ [t]), EOk)).
+  { unfold add_transition, state_for. rewrite Hs, Ho. cbn [negb].
+    destruct (t_target t) as [tg|]; [rewrite (Htg tg eq_refl)|]; reflexivity. }
+  rewrite E. apply IH. intros t' Ht'. apply H. right; exact Ht'.
+Qed.
+
+Lemma root_of_In : forall d r, root_of d = Some r -> In (r, None) d.
+Proof.
+  induction d as [|[n [p|]] d IH]; intros r H; cbn in H; [discriminate| |].
+  - right. apply IH. exact H.
+  - inv H. left; reflexivity.
+Qed.
+
+Lemma add_states_meta : forall l cur c', add_states cur l = Some c' ->
+  c_name c' = c_name cur /\ c_description c' = c_description cur /\ c_preamble c' = c_preamble cur.
+Proof.
+  induction l as [|[st p] l IH]; intros cur c' H; cbn [add_states] in H; [inv H; auto|].
+  destruct (add_state cur st p) as [c1 r] eqn:E. destruct r; try discriminate.
+  destruct (add_state_ok_form _ _ _ _ E) as [_ [l0 ->]]. destruct (IH _ _ H) as [H1 [H2 H3]].
+  rewrite H1, H2, H3. auto.
+Qed.
+
+Lemma add_transitions_meta : forall l cur c', add_transitions cur l = Some c' ->
+  c_name c' = c_name cur /\ c_description c' = c_description cur /\ c_preamble c' = c_preamble cur.
+Proof.
+  induction l as [|t l IH]; intros cur c' H; cbn [add_transitions] in H; [inv H; auto|].
+  destruct (add_transition cur t) as [c1 r] eqn:E. destruct r; try discriminate.
+  destruct (add_transition_ok_inv _ _ _ E) as [-> _]. destruct (IH _ _ H) as [H1 [H2 H3]].
+  rewrite H1, H2, H3. auto.
+Qed.
+
+Lemma sound_import_sound : forall c, sound c -> hist_ok c -> import_sound c.
+Proof.
+  intros c S Hh. destruct S. constructor; try assumption.
+  - intros k s i Hl Hk Hi. apply (sd_vinit k s i Hl Hk Hi).
+  - intros k s m Hl Hk Hm. destruct (sd_vmem k s m Hl Hk Hm) as [H1 [_ H3]]. split; assumption.
+Qed.
+
+Section Roundtrip2.
+  Variable c : chart.
+  Hypothesis HS : sound c.
+  Hypothesis Hne : no_empty_name c.
+  Hypothesis Hscodes : forall n s, state_for c n = Some s -> state_codes_ok s.
+  Hypothesis Htcodes : forall t, In t (c_transitions c) -> trans_codes_ok t.
+  Hypothesis Hkids : forall n s, state_for c n = Some s ->
+    (is_composite (s_kind s) = true -> children_for c n <> []) /\
+    (is_composite (s_kind s) = false -> children_for c n = []).
+  Hypothesis Hhist : hist_ok c.
+
+  (* the schema leaves an exported state tree unchanged *)
+  Lemma schema_export_tree : forall f n, subtree c f n -> forall fuel,
+    ydepth (export_state f c n) <= fuel -> schema_state fuel (export_state f c n) = Some (export_state f c n).
+  Proof.
+    induction f as [|f IH]; intros n Hsub fuel Hd; inversion Hsub as [f' n' s Hs Hnm Hch]; subst.
+    destruct fuel as [|fuel]; [pose proof (ydepth_pos (export_state (S f) c (s_name s))); lia|].
+    rewrite export_state_S, Hs in *. apply schema_efields. intros x Hx.
+    apply in_map_iff in Hx. destruct Hx as [ch [<- Hc]]. apply (IH ch (Hch ch Hc)).
+    destruct (Hkids _ _ Hs) as [_ Hk2].
+    assert (Hin : exists k, In (k, YList (map (export_state f c) (children_for c (s_name s))))
+                            (efields c s (map (export_state f c) (children_for c (s_name s))))).
+    { unfold efields, kidseg. destruct (s_kind s) eqn:Ek;
+        try (rewrite (Hk2 eq_refl) in Hc; destruct Hc);
+        eexists; repeat (apply in_or_app; right); left; reflexivity. }
+    destruct Hin as [k Hin]. pose proof (ydepth_map_val _ _ _ Hin) as H1.
+    pose proof (ydepth_list_elem _ _ (in_map (export_state f c) _ _ Hc)) as H2. lia.
+  Qed.
+
+  (* ---- the registration loops succeed on what the walk produced ---- *)
+  Definition from_c (st : state) (q : option name) : Prop :=
+    exists x s, state_for c x = Some s /\ st = strip_state s /\ lookup x (c_parent c) = Some q.
+  Definition stripped_from_c (cur : chart) : Prop :=
+    forall k s', lookup k (c_states cur) = Some s' -> exists s, state_for c k = Some s /\ s' = strip_state s.
+
+  Lemma add_states_export_ok : forall l cur seen,
+    inv_import cur seen -> stripped_from_c cur -> ordered seen l -> NoDup (snames l) ->
+    (forall n, In n (snames l) -> ~ In n seen) -> (forall st q, In (st, q) l -> from_c st q) ->
+    exists c', add_states cur l = Some c'.
+  Proof.
+    induction l as [|[st q] l IH]; intros cur seen Hinv HJ Ho Hnd Hnew Hfrom; [exists cur; reflexivity|].
+    cbn [add_states]. destruct Ho as [Hpok Ho]. cbn [fst snd] in Hpok, Ho.
+    destruct (Hfrom st q (or_introl eq_refl)) as [x [s [Hs [Hst Hxp]]]].
+    assert (Hnm : s_name st = x) by (rewrite Hst; apply (sd_keyname c HS _ _ Hs)).
+    assert (Hfresh : has_state cur (s_name st) = false).
+    { destruct (has_state cur (s_name st)) eqn:E; [|reflexivity]. exfalso.
+      apply (Hnew (s_name st)); [left; reflexivity|]. apply (ii_seen _ _ Hinv). exact E. }
+    assert (Hkind : s_kind st = s_kind s) by (rewrite Hst; reflexivity).
+    assert (Hor : snd (add_state cur st q) = EOk \/ snd (add_state cur st q) = EKeyError).
+    { apply add_state_register_or; [exact Hfresh|]. destruct q as [pn|]; cbn in Hpok.
+      - right. apply (ii_seen _ _ Hinv) in Hpok. apply has_state_Some in Hpok. destruct Hpok as [ps' Hps'].
+        destruct (HJ _ _ Hps') as [ps [Hps ->]]. exists pn, (strip_state ps).
+        split; [reflexivity|]. split; [|split; [exact Hps'|]].
+        + intros ->. unfold no_empty_name, has_state in Hne. unfold state_for in Hps. rewrite Hps in Hne. discriminate.
+        + change (s_kind (strip_state ps)) with (s_kind ps). split.
+          * destruct (is_composite (s_kind ps)) eqn:Ec; [reflexivity|]. exfalso.
+            destruct (Hkids _ _ Hps) as [_ Hk]. pose proof (sound_parent_child c HS _ _ Hxp) as Hin.
+            rewrite (Hk Ec) in Hin. destruct Hin.
+          * intros Hh. rewrite Hkind in Hh. destruct (Hhist x s Hs Hh) as [p' [ps2 [H1 [H2 H3]]]].
+            rewrite Hxp in H1. inv H1. unfold state_for in Hps. rewrite Hps in H2. inv H2. exact H3.
+      - left. subst seen. split; [reflexivity|]. split.
+        + assert (Hp : c_parent cur = []).
+          { destruct (c_parent cur) as [|[k v] r] eqn:Ep; [reflexivity|]. exfalso.
+            assert (Hk : has_state (erase cur) k = true).
+            { apply (sd_pkeys _ (ii_sound _ _ Hinv)). unfold erase, with_states. cbn [c_parent]. rewrite Ep.
+              cbn [lookup]. rewrite seqb_refl. discriminate. }
+            rewrite has_state_erase in Hk. apply (ii_seen _ _ Hinv) in Hk. destruct Hk. }
+          unfold root. rewrite Hp. reflexivity.
+        + rewrite Hkind. destruct (is_history (s_kind s)) eqn:Eh; [|reflexivity]. exfalso.
+          destruct (Hhist x s Hs Eh) as [p' [ps2 [H1 _]]]. rewrite Hxp in H1. discriminate. }
+    destruct (add_state cur st q) as [c1 r] eqn:E. cbn [snd] in Hor.
+    assert (Hr : r = EOk \/ r = EKeyError) by exact Hor.
+    destruct (add_state_import_step _ _ _ _ _ _ Hinv Hpok E Hr) as [-> Hinv1].
+    cbn [snames map fst] in Hnd. apply NoDup_cons_iff in Hnd. destruct Hnd as [Hn1 Hn2].
+    apply (IH c1 (s_name st :: seen)); auto.
+    - destruct (add_state_ok_form _ _ _ _ E) as [_ [l0 ->]]. intros k s' Hk.
+      unfold register_chart in Hk. cbn [c_states] in Hk. rewrite lookup_dset in Hk.
+      destruct (seqbP k (s_name st)) as [->|_]; [inv Hk; exists s; split; [exact Hs|reflexivity]|apply (HJ _ _ Hk)].
+    - intros n Hn [<-|Hin]; [contradiction|]. apply (Hnew n); [right; exact Hn|exact Hin].
+    - intros st' q' Hin. apply Hfrom. right; exact Hin.
+  Qed.
+
+  (* ---- the whole document ---- *)
+  Variable r : name.
+  Hypothesis Hroot : root c = Some r.
+
+  Let F := S (length (c_states c)).
+  Let L := cdfs c F r None.
+  Let TL := tl_of c L.
+  Let m := [("name", YStr (c_name c))] ++ opt_field "description" (c_description c)
+           ++ opt_field "preamble" (c_preamble c) ++ [("root state", YMap (enode F c r))].
+
+  Lemma root_parent : lookup r (c_parent c) = Some None.
+  Proof. apply In_lookup; [apply (sd_nd_parent c HS)|]. apply root_of_In. exact Hroot. Qed.
+
+  Lemma root_subtree : subtree c F r.
+  Proof.
+    apply (subtree_of_sound c HS F [] r); [cbn; unfold F; lia|constructor|intros a []|].
+    apply (sd_pkeys c HS). rewrite root_parent. discriminate.
+  Qed.
+
+  Lemma export_to_dict_eq : export_to_dict c = doc m.
+  Proof.
+    unfold export_to_dict, doc, m. rewrite Hroot. fold F. rewrite (export_state_subtree c F r root_subtree).
+    reflexivity.
+  Qed.
+
+  Lemma schema_export : schema_statechart (doc m) = Some (doc m).
+  Proof.
+    rewrite schema_statechart_doc.
+    assert (Hk : keys_within m statechart_keys = true).
+    { unfold m. rewrite !keys_within_app, !keys_within_opt_field by reflexivity. reflexivity. }
+    assert (Hn : ylookup "name" m = Some (YStr (c_name c))) by reflexivity.
+    assert (Hr : ylookup "root state" m = Some (YMap (enode F c r))).
+    { unfold m. rewrite !ylookup_app, !ylookup_opt_field. cbn [ylookup]. lit. reflexivity. }
+    rewrite Hk, Hn, Hr. cbn [andb]. unfold m.
+    repeat (rewrite map_opt_id_app; [reflexivity| |]); try (apply fix_opt_field_v_str; intros v; reflexivity).
+    - reflexivity.
+    - cbn [map_opt]. unfold statechart_field. cbn [fst snd]. lit. cbn iota.
+      rewrite <- (export_state_subtree c F r root_subtree).
+      rewrite schema_export_tree; [reflexivity|apply root_subtree|lia].
+  Qed.
+
+  Lemma walk_export_root :
+    import_walk (S (count_nodes (YMap (enode F c r)))) [(enode F c r, None)] [] [] = Some (L, TL).
+  Proof.
+    apply (import_walk_any_fuel (length L + 1)).
+    pose proof (walk_export c HS Hscodes Htcodes Hkids F r root_subtree None [] [] [] 1) as H.
+    cbn [app] in H. fold L in H. rewrite H. reflexivity.
+  Qed.
+
+  Lemma descr_export : get_str "description" m = keep_opt (c_description c).
+  Proof.
+    unfold get_str, m. rewrite !ylookup_app, !ylookup_opt_field. cbn [ylookup]. lit. cbn iota.
+    destruct (keep_opt (c_description c)); [reflexivity|]. cbn [option_map].
+    destruct (keep_opt (c_preamble c)); reflexivity.
+  Qed.
+
+  Lemma preamble_export : get_str "preamble" m = keep_opt (c_preamble c).
+  Proof.
+    unfold get_str, m. rewrite !ylookup_app, !ylookup_opt_field. cbn [ylookup]. lit. cbn iota.
+    destruct (keep_opt (c_preamble c)); reflexivity.
+  Qed.
+
+  (* ---- the registered states are exactly the states of c, stripped, under their parents ---- *)
+  Lemma L_from : forall st q, In (st, q) L -> from_c st q.
+  Proof.
+    intros st q Hin. apply (cdfs_In c HS F r root_subtree None st q root_parent) in Hin.
+    destruct Hin as [x [s [_ [H1 [H2 H3]]]]]. exists x, s. auto.
+  Qed.
+
+  Lemma L_cover : forall x s, state_for c x = Some s ->
+    exists q, lookup x (c_parent c) = Some q /\ In (strip_state s, q) L.
+  Proof.
+    intros x s Hs. assert (Hx : has_state c x = true) by (apply has_state_Some; exists s; exact Hs).
+    destruct (sound_state_parent c HS x Hx) as [q Hq]. exists q. split; [exact Hq|].
+    apply (cdfs_In c HS F r root_subtree None _ q root_parent). exists x, s.
+    split; [|auto].
+    destruct (import_sound_one_tree c (sound_import_sound c HS Hhist) x Hx) as [r0 [H1 [H2 H3]]].
+    rewrite (H2 r root_parent) in *. apply H3. exact Hx.
+  Qed.
+
+  Lemma L_nodup : NoDup (snames L).
+  Proof. apply (cdfs_NoDup c HS F r root_subtree). Qed.
+
+  Lemma L_ordered : ordered [] L.
+  Proof. apply (import_walk_root_ordered _ _ _ walk_export_root). Qed.
+
+  Let e0 := empty_chart (c_name c) (get_str "description" m) (get_str "preamble" m).
+
+  Lemma e0_inv : inv_import e0 [].
+  Proof.
+    constructor.
+    - unfold e0. rewrite erase_empty. apply empty_chart_sound.
+    - intros q. unfold has_state; cbn. split; [intros []|discriminate].
+    - intros k s Hl; discriminate.
+  Qed.
+
+  Lemma export_builds : exists c1 c', add_states e0 L = Some c1 /\ add_transitions c1 TL = Some c'.
+  Proof.
+    destruct (add_states_export_ok L e0 [] e0_inv) as [c1 Hc1].
+    - intros k s' Hk; discriminate.
+    - exact L_ordered.
+    - exact L_nodup.
+    - intros n _ [].
+    - exact L_from.
+    - exists c1. destruct (add_states_spec _ _ _ Hc1) as [_ [_ [_ [_ [H5 _]]]]].
+      destruct (add_transitions_succeeds TL c1) as [c' Hc']; [|exists c'; auto].
+      intros t Ht. unfold TL, tl_of in Ht. apply in_flat_map in Ht. destruct Ht as [[st q] [Hin Ht]].
+      cbn [fst] in Ht. apply in_map_iff in Ht. destruct Ht as [t0 [<- Ht0]].
+      unfold transitions_from in Ht0. apply filter_In in Ht0. destruct Ht0 as [Hin0 Hsrc]. apply seqb_eq in Hsrc.
+      destruct (H5 _ _ Hin) as [Hst _]. destruct (L_from _ _ Hin) as [x [s [Hs [E _]]]].
+      destruct (sd_trans c HS t0 Hin0) as [[s' [Hs' Ho]] Htg]. split.
+      + exists st. change (t_source (strip_trans t0)) with (t_source t0). rewrite Hsrc. split; [exact Hst|].
+        assert (Hx : s_name st = x) by (rewrite E; apply (sd_keyname c HS _ _ Hs)).
+        unfold state_for in Hs. rewrite Hsrc, Hx, Hs in Hs'. inv Hs'. exact Ho.
+      + intros tg Etg. change (t_target (strip_trans t0)) with (keep_opt (t_target t0)) in Etg.
+        apply keep_opt_Some in Etg. specialize (Htg tg Etg). apply has_state_Some in Htg. destruct Htg as [stg Hstg].
+        destruct (L_cover tg stg Hstg) as [q' [_ Hin']]. destruct (H5 _ _ Hin') as [Hl' _].
+        change (s_name (strip_state stg)) with (s_name stg) in Hl'. rewrite (sd_keyname c HS _ _ Hstg) in Hl'.
+        apply has_state_Some. eexists; exact Hl'.
+  Qed.
+
+  (* ---- the statechart that comes back ---- *)
+  Variables c1 c' : chart.
+  Hypothesis Hc1 : add_states e0 L = Some c1.
+  Hypothesis Hc' : add_transitions c1 TL = Some c'.
+
+  Lemma back_inv : inv_import c' (rev (snames L) ++ []).
+  Proof.
+    eapply add_transitions_import; [|exact Hc']. apply (add_states_import L e0 [] c1 e0_inv L_ordered Hc1).
+  Qed.
+
+  Lemma back_state : forall x s, state_for c x = Some s -> lookup x (c_states c') = Some (strip_state s).
+  Proof.
+    intros x s Hs. destruct (L_cover x s Hs) as [q [_ Hin]].
+    destruct (add_states_spec _ _ _ Hc1) as [_ [_ [_ [_ [H5 _]]]]].
+    destruct (add_transitions_list _ _ _ Hc') as [_ [T2 _]]. rewrite T2.
+    destruct (H5 _ _ Hin) as [Hl _]. change (s_name (strip_state s)) with (s_name s) in Hl.
+    rewrite (sd_keyname c HS _ _ Hs) in Hl. exact Hl.
+  Qed.
+
+  Lemma back_state_inv : forall k s', lookup k (c_states c') = Some s' ->
+    exists s, state_for c k = Some s /\ s' = strip_state s.
+  Proof.
+    intros k s' Hk. destruct (add_transitions_list _ _ _ Hc') as [_ [T2 _]]. rewrite T2 in Hk.
+    destruct (add_states_spec _ _ _ Hc1) as [_ [_ [_ [_ [H5 [H6 _]]]]]].
+    destruct (H6 _ _ Hk) as [Hk0|[q Hin]]; [discriminate|].
+    destruct (L_from _ _ Hin) as [x [s [Hs [E _]]]]. exists s. split; [|exact E].
+    destruct (H5 _ _ Hin) as [Hl _].
+    assert (Hx : s_name s' = x) by (rewrite E; apply (sd_keyname c HS _ _ Hs)).
+    assert (Hkx : k = x).
+    { pose proof (sd_keyname _ (ii_sound _ _ back_inv) k (clr_refs s')) as Hkn.
+      rewrite lookup_erase, T2, Hk in Hkn. specialize (Hkn eq_refl). cbn in Hkn. congruence. }
+    subst k. exact Hs.
+  Qed.
+
+  Lemma back_has_state : forall x, has_state c' x = has_state c x.
+  Proof.
+    intros x. destruct (has_state c x) eqn:E.
+    - apply has_state_Some in E. destruct E as [s Hs]. apply has_state_Some. eexists. apply (back_state x s Hs).
+    - destruct (has_state c' x) eqn:E'; [|reflexivity]. apply has_state_Some in E'. destruct E' as [s' Hs'].
+      destruct (back_state_inv _ _ Hs') as [s [Hs _]]. apply has_state_false in E. unfold state_for in Hs. congruence.
+  Qed.
+
+  Lemma back_parent : forall x, lookup x (c_parent c') = lookup x (c_parent c).
+  Proof.
+    intros x. destruct (has_state c x) eqn:E.
+    - pose proof E as E2. apply has_state_Some in E2. destruct E2 as [s Hs].
+      destruct (L_cover x s Hs) as [q [Hq Hin]].
+      destruct (add_states_spec _ _ _ Hc1) as [_ [_ [_ [_ [H5 _]]]]].
+      destruct (add_transitions_list _ _ _ Hc') as [_ [_ T3]]. rewrite T3, Hq.
+      destruct (H5 _ _ Hin) as [_ Hl]. change (s_name (strip_state s)) with (s_name s) in Hl.
+      rewrite (sd_keyname c HS _ _ Hs) in Hl. exact Hl.
+    - rewrite (sound_nostate_parent c HS x E).
+      assert (E' : has_state (erase c') x = false) by (rewrite has_state_erase, back_has_state; exact E).
+      apply (sound_nostate_parent _ (ii_sound _ _ back_inv) x E').
+  Qed.
+
+  Lemma back_children : forall k ch, In ch (children_for c' k) <-> In ch (children_for c k).
+  Proof.
+    intros k ch. pose proof (ii_sound _ _ back_inv) as HS'. split; intros H.
+    - apply (sound_parent_child c HS). rewrite <- back_parent. apply (sound_child_parent _ HS' k ch). exact H.
+    - apply (sound_parent_child _ HS' k ch). change (c_parent (erase c')) with (c_parent c'). rewrite back_parent.
+      apply (sound_child_parent c HS). exact H.
+  Qed.
+
+  Lemma back_transitions : c_transitions c' = TL.
+  Proof.
+    destruct (add_transitions_list _ _ _ Hc') as [T1 _]. rewrite T1.
+    destruct (add_states_spec _ _ _ Hc1) as [_ [_ [_ [_ [_ [_ H7]]]]]]. rewrite H7. reflexivity.
+  Qed.
+
+  Lemma back_nodup : NoDup (map fst (c_states c')).
+  Proof. rewrite <- keys_erase. apply (sd_nd_states _ (ii_sound _ _ back_inv)). Qed.
+
+  Lemma back_validate : validate c' = true.
+  Proof.
+    unfold validate. apply andb_true_iff. split.
+    - apply (validate_initial_iff c' back_nodup). intros k s' i Hk Hkind Hi.
+      destruct (back_state_inv _ _ Hk) as [s [Hs ->]]. change (s_kind (strip_state s)) with (s_kind s) in Hkind.
+      assert (Hi' : truthy (s_initial s) = Some i).
+      { cbn [strip_state s_initial] in Hi. rewrite Hkind in Hi. rewrite truthy_keep_opt in Hi. exact Hi. }
+      destruct (sd_vinit c HS k s i Hs Hkind Hi') as [H1 H2]. split.
+      + rewrite back_has_state. exact H1.
+      + apply back_children. exact H2.
+    - apply (validate_memory_iff c' back_nodup). intros k s' mm Hk Hkind Hm.
+      destruct (back_state_inv _ _ Hk) as [s [Hs ->]]. change (s_kind (strip_state s)) with (s_kind s) in Hkind.
+      assert (Hm' : s_memory s = Some mm).
+      { cbn [strip_state s_memory] in Hm. rewrite Hkind in Hm. apply keep_opt_Some. exact Hm. }
+      destruct (sd_vmem c HS k s mm Hs Hkind Hm') as [H1 [H2 [p [H3 H4]]]].
+      split; [exact H1|]. split; [rewrite back_has_state; exact H2|]. exists p. split.
+      + unfold parent_for in *. rewrite back_parent. exact H3.
+      + apply back_children. exact H4.
+  Qed.
+
+  Lemma root_state_m : ylookup "root state" m = Some (YMap (enode F c r)).
+  Proof. unfold m. rewrite !ylookup_app, !ylookup_opt_field. cbn [ylookup]. lit. reflexivity. Qed.
+
+  Lemma pipeline_export : import_pipeline (export_to_dict c) = Some c'.
+  Proof.
+    unfold import_pipeline. rewrite export_to_dict_eq, schema_export.
+    assert (Hi : import_from_dict (doc m) = Some c').
+    { rewrite import_from_dict_with_doc. unfold import_from_dict_f, with_doc, doc. cbv iota beta.
+      assert (Hn : get_str "name" m = Some (c_name c)) by reflexivity.
+      rewrite Hn, root_state_m. cbn [Nat.add]. rewrite walk_export_root. fold e0. rewrite Hc1. exact Hc'. }
+    rewrite Hi, back_validate. reflexivity.
+  Qed.
+
+  Lemma back_meta : c_name c' = c_name c /\ c_description c' = keep_opt (c_description c) /\
+                    c_preamble c' = keep_opt (c_preamble c).
+  Proof.
+    destruct (add_transitions_meta _ _ _ Hc') as [A1 [A2 A3]].
+    destruct (add_states_meta _ _ _ Hc1) as [B1 [B2 B3]].
+    rewrite A1, A2, A3, B1, B2, B3. unfold e0. cbn [empty_chart c_name c_description c_preamble].
+    rewrite descr_export, preamble_export. auto.
+  Qed.
+
+  Lemma TL_eq : TL = map strip_trans (flat_map (fun n => filter (from_src n) (c_transitions c)) (snames L)).
+  Proof.
+    unfold TL, tl_of, snames. rewrite map_flat_map, flat_map_map. reflexivity.
+  Qed.
+
+  Lemma snames_cover : forall x, has_state c x = true -> In x (snames L).
+  Proof.
+    intros x Hx. apply has_state_Some in Hx. destruct Hx as [s Hs].
+    destruct (L_cover x s Hs) as [q [_ Hin]]. unfold snames.
+    apply in_map_iff. exists (strip_state s, q). split; [|exact Hin].
+    cbn. apply (sd_keyname c HS _ _ Hs).
+  Qed.
+
+  Lemma roundtrip_export : roundtrip_ok c c' = true.
+  Proof.
+    destruct back_meta as [M1 [M2 M3]]. pose proof (ii_sound _ _ back_inv) as HS'.
+    unfold roundtrip_ok. repeat (apply andb_true_iff; split).
+    - apply seqb_eq. symmetry. exact M1.
+    - rewrite M2. apply ostr_eqb_refl.
+    - rewrite M3. apply ostr_eqb_refl.
+    - rewrite (by_key_eq (map (fun kv => (fst kv, strip_state (snd kv))) (c_states c)) (c_states c')).
+      + apply list_eqb_refl. intros [k v]. unfold pair_eqb. cbn. rewrite seqb_refl, state_eqb_refl. reflexivity.
+      + rewrite keys_mapv. apply (sd_nd_states c HS).
+      + exact back_nodup.
+      + intros k. rewrite lookup_mapv. destruct (lookup k (c_states c)) as [s|] eqn:E; cbn [option_map].
+        * symmetry. apply back_state. exact E.
+        * symmetry. apply has_state_false. rewrite back_has_state. apply has_state_false. exact E.
+    - rewrite (by_key_eq (c_parent c) (c_parent c')).
+      + apply list_eqb_refl. intros [k v]. unfold pair_eqb. cbn. rewrite seqb_refl. apply ostr_eqb_refl.
+      + apply (sd_nd_parent c HS).
+      + apply (sd_nd_parent _ HS').
+      + intros k. symmetry. apply back_parent.
+    - apply forallb_forall. intros [k s] _. cbn [fst]. apply strs_eqb_eq. apply sort_names_perm_eq.
+      apply NoDup_Permutation.
+      + apply (sound_children_for_NoDup c HS).
+      + apply (sound_children_for_NoDup _ HS' k).
+      + intros ch. symmetry. apply back_children.
+    - apply Nat.eqb_eq. rewrite back_transitions, TL_eq, map_length. symmetry.
+      apply length_flat_map_src; [exact L_nodup|]. intros t Ht. apply snames_cover.
+      destruct (sd_trans c HS t Ht) as [[s [Hs _]] _]. apply has_state_Some. eexists; exact Hs.
+    - apply forallb_forall. intros [k s] Hin. cbn [fst].
+      assert (Hk : has_state c k = true).
+      { apply has_state_In. change k with (fst (k, s)). apply in_map. exact Hin. }
+      unfold transitions_from at 2. rewrite back_transitions, TL_eq.
+      rewrite (filter_map_comm strip_trans (fun t => str_eqb (t_source t) k)).
+      change (fun x : transition => str_eqb (t_source (strip_trans x)) k) with (from_src k).
+      rewrite (filter_flat_map_key k (snames L) (c_transitions c) L_nodup (snames_cover k Hk)).
+      apply list_eqb_refl. apply trans_eqb_refl.
+  Qed.
+End Roundtrip2.
+
+
+(* ---- C11: the theorem ---- *)
+Definition is_nil {A} (l : list A) : bool := match l with [] => true | _ => false end.
+Definition codes_ok_b (l : list code) : bool := forallb nonempty l.
+
+(* the statecharts export_to_dict/import_from_dict are expected to carry over (decidable):
+   a sound tree on which validate() passes with history states under compound states (import_sound_b),
+   no state named '', a root state, exactly the composite states have children, and no empty
+   contract condition (an empty condition is dropped by the importer) *)
+Definition valid_for_export_b (c : chart) : bool :=
+  import_sound_b c
+  && negb (has_state c "")
+  && (match root c with Some _ => true | None => false end)
+  && forallb (fun kv => if is_composite (s_kind (snd kv)) then negb (is_nil (children_for c (fst kv)))
+                        else is_nil (children_for c (fst kv))) (c_states c)
+  && forallb (fun kv => codes_ok_b (s_pre (snd kv)) && codes_ok_b (s_post (snd kv)) && codes_ok_b (s_inv (snd kv)))
+             (c_states c)
+  && forallb (fun t => codes_ok_b (t_pre t) && codes_ok_b (t_post t) && codes_ok_b (t_inv t)) (c_transitions c).
+
+Lemma codes_ok_b_ok : forall l, codes_ok_b l = true -> codes_ok l.
+Proof. intros l H x Hx. unfold codes_ok_b in H. rewrite forallb_forall in H. apply H. exact Hx. Qed.
+
+Theorem C11_dict_roundtrip : forall c, valid_for_export_b c = true ->
+  exists c', import_pipeline (export_to_dict c) = Some c' /\ roundtrip_ok c c' = true.
+Proof.
+  intros c H. unfold valid_for_export_b in H.
+  apply andb_true_iff in H; destruct H as [H Htc].
+  apply andb_true_iff in H; destruct H as [H Hsc].
+  apply andb_true_iff in H; destruct H as [H Hk].
+  apply andb_true_iff in H; destruct H as [H Hr].
+  apply andb_true_iff in H; destruct H as [Hisb Hne].
+  apply negb_true_iff in Hne.
+  pose proof (import_sound_b_sound c Hisb Hne) as IS.
+  assert (HS : sound c).
+  { unfold import_sound_b in Hisb. do 3 (apply andb_true_iff in Hisb; destruct Hisb as [Hisb _]).
+    apply sound_b_sound; assumption. }
+  destruct (root c) as [r|] eqn:Hroot; [|discriminate].
+  assert (Hscodes : forall n s, state_for c n = Some s -> state_codes_ok s).
+  { intros n s Hs. rewrite forallb_forall in Hsc. specialize (Hsc _ (lookup_In _ _ _ Hs)). cbn [snd] in Hsc.
+    apply andb_true_iff in Hsc; destruct Hsc as [Hsc H3]. apply andb_true_iff in Hsc; destruct Hsc as [H1 H2].
+    repeat split; apply codes_ok_b_ok; assumption. }
+  assert (Htcodes : forall t, In t (c_transitions c) -> trans_codes_ok t).
+  { intros t Ht. rewrite forallb_forall in Htc. specialize (Htc _ Ht).
+    apply andb_true_iff in Htc; destruct Htc as [Htc H3]. apply andb_true_iff in Htc; destruct Htc as [H1 H2].
+    repeat split; apply codes_ok_b_ok; assumption. }
+  assert (Hkids : forall n s, state_for c n = Some s ->
+            (is_composite (s_kind s) = true -> children_for c n <> []) /\
+            (is_composite (s_kind s) = false -> children_for c n = [])).
+  { intros n s Hs. rewrite forallb_forall in Hk. specialize (Hk _ (lookup_In _ _ _ Hs)). cbn [fst snd] in Hk.
+    split; intros Hc; rewrite Hc in Hk; destruct (children_for c n); try discriminate; congruence. }
+  pose proof (is_hist c IS) as Hhist.
+  destruct (export_builds c HS Hne Hscodes Htcodes Hkids Hhist r Hroot) as [c1 [c' [Hc1 Hc']]].
+  exists c'. split.
+  - apply (pipeline_export c HS Hscodes Htcodes Hkids Hhist r Hroot c1 c' Hc1 Hc').
+  - apply (roundtrip_export c HS Hscodes Htcodes Hkids Hhist r Hroot c1 c' Hc1 Hc').
+Qed.
+
+(* ---- what roundtrip_ok says ---- *)
+Lemma state_eqb_eq : forall a b, state_eqb a b = true <-> a = b.
+Proof.
+  intros [n1 k1 i1 m1 e1 x1 p1 q1 v1] [n2 k2 i2 m2 e2 x2 p2 q2 v2]. unfold state_eqb. cbn.
+  rewrite !andb_true_iff, seqb_eq, kind_eqb_eq, !ostr_eqb_eq, !strs_eqb_eq. split.
+  - intros [[[[[[[[-> ->] ->] ->] ->] ->] ->] ->] ->]. reflexivity.
+  - intros H; inv H. repeat split; reflexivity.
+Qed.
+
+Lemma trans_eqb_eq : forall a b, trans_eqb a b = true <-> a = b.
+Proof.
+  intros [n1 k1 i1 m1 e1 x1 p1 q1 v1] [n2 k2 i2 m2 e2 x2 p2 q2 v2]. unfold trans_eqb. cbn.
+  rewrite !andb_true_iff, seqb_eq, !ostr_eqb_eq, !strs_eqb_eq, Z.eqb_eq. split.
+  - intros [[[[[[[[-> ->] ->] ->] ->] ->] ->] ->] ->]. reflexivity.
+  - intros H; inv H. repeat split; reflexivity.
+Qed.
+
+Lemma pair_eqb_eq : forall {A B} (ea : A -> A -> bool) (eb : B -> B -> bool),
+  (forall a b, ea a b = true <-> a = b) -> (forall a b, eb a b = true <-> a = b) ->
+  forall x y, pair_eqb ea eb x y = true <-> x = y.
+Proof.
+  intros A B ea eb Ha Hb [a1 b1] [a2 b2]. unfold pair_eqb. cbn. rewrite andb_true_iff, Ha, Hb.
+  split; [intros [-> ->]; reflexivity|intros H; inv H; auto].
+Qed.
+
+Lemma by_key_perm : forall {V} (l1 l2 : list (name * V)), by_key l1 = by_key l2 -> Permutation l1 l2.
+Proof.
+  intros V l1 l2 H. unfold by_key in H.
+  apply (Permutation_trans (Permutation_sym (sort_perm (fun a b : string * V => str_leb (fst a) (fst b)) l1))).
+  rewrite H. apply sort_perm.
+Qed.
+
+(* the relation written "sc' ~ strip_code sc" in the statement of C11 *)
+Record roundtrip_eqv (a b : chart) : Prop := mkRoundtripEqv {
+  re_name : c_name a = c_name b;
+  re_descr : keep_opt (c_description a) = c_description b;
+  re_preamble : keep_opt (c_preamble a) = c_preamble b;
+  (* the same states, each with its code stripped and '' read as None *)
+  re_states : Permutation (map (fun kv => (fst kv, strip_state (snd kv))) (c_states a)) (c_states b);
+  (* the same parent for every state, the same set of children *)
+  re_parent : Permutation (c_parent a) (c_parent b);
+  re_children : forall k, has_state a k = true -> Permutation (children_for a k) (children_for b k);
+  (* as many transitions, and for every state the same (stripped) transitions in the same order *)
+  re_ntrans : length (c_transitions a) = length (c_transitions b);
+  re_trans : forall k, has_state a k = true -> map strip_trans (transitions_from a k) = transitions_from b k
+}.
+
+Theorem roundtrip_ok_eqv : forall a b, roundtrip_ok a b = true -> roundtrip_eqv a b.
+Proof.
+  intros a b H. unfold roundtrip_ok in H.
+  apply andb_true_iff in H; destruct H as [H H8].
+  apply andb_true_iff in H; destruct H as [H H7].
+  apply andb_true_iff in H; destruct H as [H H6].
+  apply andb_true_iff in H; destruct H as [H H5].
+  apply andb_true_iff in H; destruct H as [H H4].
+  apply andb_true_iff in H; destruct H as [H H3].
+  apply andb_true_iff in H; destruct H as [H1 H2].
+  assert (Hin : forall k, has_state a k = true -> exists s, In (k, s) (c_states a)).
+  { intros k Hk. apply has_state_Some in Hk. destruct Hk as [s Hs]. exists s. apply lookup_In. exact Hs. }
+  constructor.
+  - apply seqb_eq. exact H1.
+  - apply ostr_eqb_eq. exact H2.
+  - apply ostr_eqb_eq. exact H3.
+  - apply by_key_perm. apply (list_eqb_eq _ (pair_eqb_eq _ _ seqb_eq state_eqb_eq)). exact H4.
+  - apply by_key_perm. apply (list_eqb_eq _ (pair_eqb_eq _ _ seqb_eq ostr_eqb_eq)). exact H5.
+  - intros k Hk. destruct (Hin k Hk) as [s Hs]. rewrite forallb_forall in H6. specialize (H6 _ Hs). cbn [fst] in H6.
+    apply strs_eqb_eq in H6.
+    eapply Permutation_trans; [apply Permutation_sym, sort_names_perm|]. rewrite H6. apply sort_names_perm.
+  - apply Nat.eqb_eq. exact H7.
+  - intros k Hk. destruct (Hin k Hk) as [s Hs]. rewrite forallb_forall in H8. specialize (H8 _ Hs). cbn [fst] in H8.
+    apply (list_eqb_eq _ trans_eqb_eq). exact H8.
+Qed.
+
+Corollary C11_dict_roundtrip_eqv : forall c, valid_for_export_b c = true ->
+  exists c', import_pipeline (export_to_dict c) = Some c' /\ roundtrip_eqv c c'.
+Proof.
+  intros c H. destruct (C11_dict_roundtrip c H) as [c' [H1 H2]]. exists c'. split; [exact H1|].
+  apply roundtrip_ok_eqv. exact H2.
+Qed.
+
+
+(* ================================================================== 6. non-vacuity *)
+Definition ex_doc : ydata :=
+  YMap [("statechart", YMap [
+    ("name", YStr "demo"); ("description", YStr ""); ("preamble", YStr " x = 1 ");
+    ("root state", YMap [
+      ("name", YStr "root"); ("initial", YStr "s1");
+      ("states", YList [
+        YMap [("name", YStr "s1"); ("on entry", YStr " a = 1 ");
+              ("contract", YList [YMap [("always", YStr "x >= 0")]]);
+              ("transitions", YList [
+                 YMap [("target", YStr "s2"); ("event", YStr "go"); ("guard", YStr " x > 0 ");
+                       ("priority", YStr "high"); ("contract", YList [YMap [("before", YStr " p ")];
+                                                                       YMap [("after", YStr "q")]])];
+                 YMap [("event", YStr " tick "); ("action", YStr "x += 1"); ("priority", YStr "low")];
+                 YMap [("target", YStr "par"); ("priority", YInt 5)]])];
+        YMap [("name", YStr "s2"); ("initial", YStr "s2a"); ("on exit", YStr "bye");
+              ("states", YList [
+                 YMap [("name", YStr "s2a")];
+                 YMap [("name", YStr "h"); ("type", YStr "shallow history"); ("memory", YStr "s2a")];
+                 YMap [("name", YStr "dh"); ("type", YStr "deep history")];
+                 YMap [("name", YStr "fin"); ("type", YStr "final")]])];
+        YMap [("name", YStr "par");
+              ("parallel states", YList [
+                 YMap [("name", YStr "r1"); ("states", YList [YMap [("name", YStr "r1a")]])];
+                 YMap [("name", YInt 7)]]);
+              ("transitions", YList [
+                 YMap [("target", YInt 7); ("event", YStr "back"); ("priority", YStr "-3")]])]])])])].
+
+Definition ex_chart : chart :=
+  Eval vm_compute in match import_pipeline ex_doc with Some c => c | None => empty_chart "" None None end.
+
+(* C12_sound is not vacuous: the document is accepted, and the checker agrees with the theorem *)
+Example ex_import : import_pipeline ex_doc = Some ex_chart.
+Proof. vm_compute. reflexivity. Qed.
+Example ex_import_sound : import_sound ex_chart.
+Proof. exact (C12_sound _ _ ex_import). Qed.
+Example ex_import_sound_b : import_sound_b ex_chart = true.
+Proof. vm_compute. reflexivity. Qed.
+Example ex_nontrivial :
+  length (c_states ex_chart) = 11 /\ length (c_transitions ex_chart) = 4 /\
+  map t_priority (c_transitions ex_chart) = [-3; 1; -1; 5]%Z /\
+  kind_of ex_chart "h" = Some KShallow /\ parent_for ex_chart "r1a" = Some "r1" /\ has_state ex_chart "7" = true.
+Proof. vm_compute. repeat split; reflexivity. Qed.
+
+(* C11 is not vacuous: the example satisfies the hypothesis, and the round trip can be replayed by computation *)
+Example ex_valid : valid_for_export_b ex_chart = true.
+Proof. vm_compute. reflexivity. Qed.
+Example ex_roundtrip :
+  exists c', import_pipeline (export_to_dict ex_chart) = Some c' /\ roundtrip_ok ex_chart c' = true /\
+             chart_eqb ex_chart c' = false.   (* stripping and sibling order do change the statechart *)
+Proof. eexists. split; [vm_compute; reflexivity|]. split; vm_compute; reflexivity. Qed.
+Example ex_roundtrip_by_theorem :
+  exists c', import_pipeline (export_to_dict ex_chart) = Some c' /\ roundtrip_eqv ex_chart c'.
+Proof. exact (C11_dict_roundtrip_eqv ex_chart ex_valid). Qed.
+
+(* C12_reject is not vacuous: faulty documents, each rejected both by computation and by the theorem of its class *)
+Definition st (nm : string) (rest : list (string * ydata)) : ydata := YMap (("name", YStr nm) :: rest).
+Definition sc_of (root : ydata) : list (string * ydata) := [("name", YStr "sc"); ("root state", root)].
+
+(* unknown key two levels down *)
+Definition bad_key_node := [("name", YStr "b"); ("colour", YStr "red")].
+Definition bad_key_root := st "root" [("states", YList [st "a" [("states", YList [YMap bad_key_node])]])].
+Example ex_reject_unknown_key : import_pipeline (doc (sc_of bad_key_root)) = None.
+Proof.
+  apply (C12_reject_unknown_key_state (sc_of bad_key_root) bad_key_root bad_key_node "colour" (YStr "red")).
+  - right; left; reflexivity.
+  - eapply si_sub; [left; reflexivity|right; left; reflexivity|left; reflexivity|].
+    eapply si_sub; [left; reflexivity|right; left; reflexivity|left; reflexivity|apply si_here].
+  - right; left; reflexivity.
+  - reflexivity.
+Qed.
+Example ex_reject_unknown_key_computed : import_pipeline (doc (sc_of bad_key_root)) = None.
+Proof. vm_compute. reflexivity. Qed.
+
+(* a priority that is neither an integer nor high/low, in a nested state *)
+Definition bad_prio_trans := [("target", YStr "a"); ("priority", YStr "medium")].
+Definition bad_prio_node := [("name", YStr "a"); ("transitions", YList [YMap bad_prio_trans])].
+Definition bad_prio_root := st "root" [("parallel states", YList [YMap bad_prio_node])].
+Example ex_reject_bad_priority : import_pipeline (doc (sc_of bad_prio_root)) = None.
+Proof.
+  apply (C12_reject_bad_priority (sc_of bad_prio_root) bad_prio_root bad_prio_node
+           [YMap bad_prio_trans] bad_prio_trans (YStr "medium")).
+  - right; left; reflexivity.
+  - eapply si_sub; [right; reflexivity|right; left; reflexivity|left; reflexivity|apply si_here].
+  - right; left; reflexivity.
+  - left; reflexivity.
+  - right; left; reflexivity.
+  - apply use_priority_None_iff. cbn. repeat split; discriminate.
+Qed.
+
+(* both 'states' and 'parallel states' non-empty (passes the schema, refused by import_from_dict) *)
+Definition both_node := [("name", YStr "a"); ("states", YList [st "x" []]); ("parallel states", YList [st "y" []])].
+Definition both_root := [("name", YStr "root"); ("states", YList [YMap both_node])].
+Example ex_reject_both : import_pipeline (doc (sc_of (YMap both_root))) = None.
+Proof.
+  apply (C12_reject_both_states_and_parallel (doc (sc_of (YMap both_root))) (sc_of (YMap both_root)) both_root
+           eq_refl eq_refl both_node (Some "root") (st "x" []) [] (st "y" []) []); try reflexivity.
+  eapply wi_sub; [reflexivity|left; reflexivity|apply wi_here].
+Qed.
+
+(* the same name under two parents *)
+Definition dup_root := [("name", YStr "root");
+  ("states", YList [st "a" [("states", YList [st "x" []])]; st "b" [("states", YList [st "x" []])]])].
+Example ex_reject_duplicate : import_pipeline (doc (sc_of (YMap dup_root))) = None.
+Proof.
+  apply (C12_reject_duplicate_name (doc (sc_of (YMap dup_root))) (sc_of (YMap dup_root)) dup_root eq_refl eq_refl
+           [("name", YStr "x")] (Some "a") [("name", YStr "x")] (Some "b")
+           (mkState "x" KBasic None None None None [] [] []) (mkState "x" KBasic None None None None [] [] []));
+    try reflexivity.
+  - eapply wi_sub; [reflexivity|left; reflexivity|].
+    eapply wi_sub; [reflexivity|left; reflexivity|apply wi_here].
+  - eapply wi_sub; [reflexivity|right; left; reflexivity|].
+    eapply wi_sub; [reflexivity|left; reflexivity|apply wi_here].
+  - intros E; inv E.
+Qed.
+
+(* a history state at the root, and one under an orthogonal state *)
+Definition hroot := [("name", YStr "h"); ("type", YStr "deep history")].
+Example ex_reject_history_root : import_pipeline (doc (sc_of (YMap hroot))) = None.
+Proof.
+  eapply (C12_reject_history_root (doc (sc_of (YMap hroot))) (sc_of (YMap hroot)) hroot eq_refl eq_refl); reflexivity.
+Qed.
+
+Definition horth_root := [("name", YStr "root");
+  ("parallel states", YList [st "r1" []; st "h" [("type", YStr "shallow history")]])].
+Example ex_reject_history_under_orthogonal : import_pipeline (doc (sc_of (YMap horth_root))) = None.
+Proof.
+  eapply (C12_reject_history_under_non_compound (doc (sc_of (YMap horth_root))) (sc_of (YMap horth_root)) horth_root eq_refl eq_refl horth_root None _
+            [("name", YStr "h"); ("type", YStr "shallow history")]).
+  - apply wi_here.
+  - reflexivity.
+  - cbn. discriminate.
+  - right; left; reflexivity.
+  - reflexivity.
+  - reflexivity.
+Qed.
+
+(* memory naming the history state itself (refused by validate) *)
+Definition mem_node := [("name", YStr "h"); ("type", YStr "shallow history"); ("memory", YStr "h")].
+Definition mem_root := [("name", YStr "root"); ("states", YList [st "a" []; YMap mem_node])].
+Example ex_reject_memory_itself : import_pipeline (doc (sc_of (YMap mem_root))) = None.
+Proof.
+  eapply (C12_reject_memory_not_sibling (doc (sc_of (YMap mem_root))) (sc_of (YMap mem_root)) mem_root eq_refl eq_refl mem_node (Some "root") _ "h").
+  - eapply wi_sub; [reflexivity|right; left; reflexivity|apply wi_here].
+  - reflexivity.
+  - reflexivity.
+  - reflexivity.
+  - left. reflexivity.
+Qed.
+
+(* transition declared on a final state; transition to a state that does not exist *)
+Definition fin_node := [("name", YStr "f"); ("type", YStr "final"); ("transitions", YList [YMap [("target", YStr "root")]])].
+Definition fin_root := [("name", YStr "root"); ("states", YList [YMap fin_node])].
+Example ex_reject_transition_on_final : import_pipeline (doc (sc_of (YMap fin_root))) = None.
+Proof.
+  eapply (C12_reject_transition_on_final_or_history (doc (sc_of (YMap fin_root))) (sc_of (YMap fin_root)) fin_root eq_refl eq_refl fin_node (Some "root") _
+            [("target", YStr "root")]).
+  - eapply wi_sub; [reflexivity|left; reflexivity|apply wi_here].
+  - reflexivity.
+  - reflexivity.
+  - left; reflexivity.
+Qed.
+
+Definition tgt_root := [("name", YStr "root"); ("transitions", YList [YMap [("target", YStr "nowhere")]])].
+Example ex_reject_unknown_target : import_pipeline (doc (sc_of (YMap tgt_root))) = None.
+Proof.
+  eapply (C12_reject_unknown_target (doc (sc_of (YMap tgt_root))) (sc_of (YMap tgt_root)) tgt_root eq_refl eq_refl tgt_root None [("target", YStr "nowhere")] "nowhere").
+  - apply wi_here.
+  - left; reflexivity.
+  - reflexivity.
+  - intros y yp sy Hw Hy. inversion Hw; subst.
+    + vm_compute in Hy. inv Hy. cbn. discriminate.
+    + match goal with H : import_state tgt_root = Some _ |- _ => vm_compute in H; inv H end.
+      match goal with H : In _ (subs_of _ _) |- _ => destruct H end.
+Qed.
+
+(* initial naming a state that is not a child *)
+Definition ini_root := [("name", YStr "root"); ("initial", YStr "b");
+                        ("states", YList [st "a" [("states", YList [st "b" []])]])].
+Example ex_reject_initial_not_child_computed : import_pipeline (doc (sc_of (YMap ini_root))) = None.
+Proof. vm_compute. reflexivity. Qed.
+
 Print Assumptions C12_sound.
+Print Assumptions import_sound_one_tree.
+Print Assumptions import_sound_b_iff.
 Print Assumptions C12_sound_b.
 Print Assumptions C12_sound_b_refuted.
-Print Assumptions import_sound_b_iff.
+Print Assumptions C12_reject_not_a_statechart.
+Print Assumptions C12_reject_unknown_key_statechart.
+Print Assumptions C12_reject_missing_statechart_name.
+Print Assumptions C12_reject_missing_root_state.
+Print Assumptions C12_reject_unknown_key_state.
+Print Assumptions C12_reject_missing_state_name.
+Print Assumptions C12_reject_unknown_type.
+Print Assumptions C12_reject_unknown_key_transition.
+Print Assumptions C12_reject_bad_priority.
+Print Assumptions C12_reject_unknown_key_state_contract.
 Print Assumptions C12_reject_unknown_key_transition_contract.
-Print Assumptions C12_error_type_fuel.
-Print Assumptions C12_error_type_no_keyerror.
+Print Assumptions C12_reject_both_states_and_parallel.
+Print Assumptions C12_reject_duplicate_name.
+Print Assumptions C12_reject_duplicate_name_list.
+Print Assumptions C12_reject_transition_on_final_or_history.
+Print Assumptions C12_reject_unknown_target.
+Print Assumptions C12_reject_history_root.
+Print Assumptions C12_reject_history_under_non_compound.
+Print Assumptions C12_reject_initial_not_child.
+Print Assumptions C12_reject_memory_not_sibling.
+Print Assumptions C12_error_type.
+Print Assumptions C11_dict_roundtrip.
+Print Assumptions C11_dict_roundtrip_eqv.
+Print Assumptions ex_roundtrip.
+Print Assumptions ex_reject_unknown_target.
